@@ -25,7 +25,19 @@ EXPLANATION = (
     "sequences are unrolled; values are followed through all reaching definitions. A guard that is missing where the "
     "construct IS recognised is a violation; a construct that is not recognisable at all (state machine, match "
     "statement, recursion instead of the level loop, arithmetic re-implementation of a string test) is reported as "
-    "undecided. Tree shape over long histories is not executed."
+    "undecided. The identifier a table splits along (RoutingTable.my_node_id) is written only while the table is "
+    "constructed; every caller of Bucket.generate_id() calls it on a bucket that is current at the call (not on a loop "
+    "variable left over from a loop that does not contain the call), so the id refreshes the bucket that is stamped. "
+    "Entries leave a node table only in Bucket.add (eviction from a full bucket) and - BAD nodes only - in "
+    "remove_bad_nodes or a method it delegates to (every other function of the module that removes entries is held to "
+    "the BAD-only condition, a remover keyed by a parameter is decided in its callers' call trees). "
+    "Spellings that need library knowledge (operator.* functions, methodcaller / attrgetter / itemgetter / partial "
+    "objects, map over one iterable, contextlib.suppress, Enum members, match statements with sequence / class "
+    "patterns, `x is True` on boolean values, small record and callable classes of the module) are rewritten into "
+    "plain syntax on a private copy of the two DHT modules before the rules run; several tests of one decision local "
+    "are combined, components of a helper's result object / tuple are followed into the helper's returns, a callable "
+    "picked from a conditional expression or a dispatch table stands for every member of the table, and a method that "
+    "only one class of the module defines is followed on a local receiver. Tree shape over long histories is not executed."
 )
 
 RT = "ipv8/dht/routing.py"
@@ -235,6 +247,9 @@ def _elems(fi: FuncInfo, e: ast.AST, depth: int = 6) -> list[ast.AST] | None:
         if base is not None and isinstance(i, int) and -len(base) <= i < len(base):
             return _elems(fi, base[i], depth - 1)
         return None
+    nt = _namedtuple_values(fi, e)
+    if nt is not None:
+        return nt
     if isinstance(e, ast.Call) and not e.keywords and not any(isinstance(a, ast.Starred) for a in e.args):
         c = chain(e.func)
         if c == "zip" and e.args:
@@ -282,6 +297,23 @@ def _elems(fi: FuncInfo, e: ast.AST, depth: int = 6) -> list[ast.AST] | None:
             out.append(_fold(_subst(e.elt, b)))
         return out
     return None
+
+
+def _namedtuple_fields(fi: FuncInfo, name: str) -> list[str] | None:
+    """field names (in order) of a NamedTuple class of fi's module"""
+    ci = fi.module.classes.get(name)
+    if ci is None or not any((chain(b) or "").split(".")[-1] == "NamedTuple" for b in ci.node.bases):
+        return None
+    lay = _class_layout(fi.module, ci.node)
+    return list(lay[2]) if lay is not None else None
+
+
+def _namedtuple_values(fi: FuncInfo, e: ast.AST) -> list[ast.AST] | None:
+    """Rec(a, b) / Rec(x=a, y=b) with Rec a NamedTuple of the module: the tuple (a, b) it is"""
+    if not (isinstance(e, ast.Call) and isinstance(e.func, ast.Name)) or _namedtuple_fields(fi, e.func.id) is None:
+        return None
+    fm = _bind_record(_class_layout(fi.module, fi.module.classes[e.func.id].node), e)
+    return list(fm.values()) if fm is not None else None
 
 
 def _dict_pairs(fi: FuncInfo, e: ast.AST, depth: int) -> list[tuple[ast.AST, ast.AST]] | None:
@@ -447,6 +479,12 @@ def _callee(ctx: Ctx, fi: FuncInfo, call: ast.Call):
         d = single_def(fi, f.id)
         if d is not None and d[1] is None and isinstance(strip_cast(d[0]), ast.Lambda):
             return strip_cast(d[0]), False
+        if d is not None and d[1] is None and isinstance(strip_cast(d[0]), ast.Call) and isinstance(strip_cast(d[0]).func, ast.Name) \
+                and strip_cast(d[0]).func.id in fi.module.classes and not local_defs(fi, strip_cast(d[0]).func.id):
+            # x = Cls(...); x(...) runs Cls.__call__ (self is the instance: its fields are not followed)
+            m = fi.module.classes[strip_cast(d[0]).func.id].lookup("__call__")
+            if m is not None and m.module is fi.module and not ({"staticmethod", "classmethod"} & set(m.decorator_names())):
+                return m, True
         # a closure defined in the enclosing function (fi itself nested)
         for a in ancestors(fi.node):
             if isinstance(a, _FUNCS):
@@ -463,7 +501,170 @@ def _callee(ctx: Ctx, fi: FuncInfo, call: ast.Call):
             if m is not None and m.module is fi.module:
                 static = "staticmethod" in m.decorator_names()
                 return m, (not static and f.value.id != fi.cls.name) or ("classmethod" in m.decorator_names())
+    if isinstance(f, ast.Attribute) and not (isinstance(f.value, ast.Name) and f.value.id in ("self", "cls")):
+        # <object>.m(...): m is defined by exactly one class of this module and either no built-in container / string has a
+        # method of that name, or the receiver is a local that is visibly used as an instance of that class (its other
+        # attribute uses are all members of the class): the call can only run that method (on the receiver as self)
+        owners = [c for c in fi.module.classes.values() if f.attr in c.methods]
+        if len(owners) == 1 and not (isinstance(f.value, ast.Name) and f.value.id in fi.module.imports) \
+                and (not _builtin_method(f.attr) or (isinstance(f.value, ast.Name) and _used_as_instance(fi, f.value.id, owners[0], call))
+                     or _expr_class(fi, f.value) == owners[0].name):
+            m = owners[0].methods[f.attr]
+            if not ({"staticmethod", "classmethod"} & set(m.decorator_names())) and m.params():
+                return m, True
     return None, False
+
+
+def _expr_class(fi: FuncInfo, e: ast.AST, depth: int = 3) -> str | None:
+    """the class of this module an expression is declared to be: an annotated parameter, Cls(...), the declared result of
+    a function / own method, a single-assignment local holding one of those"""
+    e = strip_cast(e)
+    if depth <= 0:
+        return None
+
+    def named(ann) -> str | None:
+        if ann is None:
+            return None
+        t = norm(ann).strip("'\"")
+        parts = [x.strip() for x in t.replace("Optional[", "").rstrip("]").split("|")]
+        real = [x for x in parts if x != "None"]
+        return real[0] if len(real) == 1 and real[0] in fi.module.classes else None
+    if isinstance(e, ast.Name):
+        a = next((x for x in fi.node.args.posonlyargs + fi.node.args.args + fi.node.args.kwonlyargs if x.arg == e.id), None)
+        if a is not None:
+            return named(a.annotation)
+        d = single_def(fi, e.id)
+        return _expr_class(fi, d[0], depth - 1) if d is not None and d[1] is None else None
+    if isinstance(e, ast.Call):
+        if isinstance(e.func, ast.Name) and e.func.id in fi.module.classes:
+            return e.func.id
+        t = None
+        if isinstance(e.func, ast.Name):
+            t = fi.module.functions.get(e.func.id)
+        elif isinstance(e.func, ast.Attribute) and isinstance(e.func.value, ast.Name) and e.func.value.id in ("self", "cls") and fi.cls is not None:
+            t = fi.cls.lookup(e.func.attr)
+        return named(t.node.returns) if t is not None else None
+    return None
+
+
+def _members(ci) -> set[str]:
+    """method names, class attributes and the instance attributes the class's own methods store on self"""
+    got = getattr(ci, "_c14_members", None)
+    if got is None:
+        got = set()
+        for c in ci.mro():
+            got |= set(c.methods) | set(c.attrs) | set(c.annotations)
+            for m in c.methods.values():
+                me = m.params()[0] if m.params() else None
+                for n in ast.walk(m.node):
+                    if isinstance(n, ast.Attribute) and isinstance(n.ctx, ast.Store) and isinstance(n.value, ast.Name) and n.value.id == me:
+                        got.add(n.attr)
+        ci._c14_members = got
+    return got
+
+
+def _used_as_instance(fi: FuncInfo, name: str, ci, but: ast.AST) -> bool:
+    """every attribute the local is used with (apart from the call in question) is a member of the class, and at least one
+    of them is a name no built-in container has; or the parameter is annotated with the class"""
+    ann = next((a.annotation for a in fi.node.args.posonlyargs + fi.node.args.args + fi.node.args.kwonlyargs if a.arg == name and a.annotation is not None), None)
+    if ann is not None and norm(ann).strip("'\"") == ci.name:
+        return True
+    uses = [n for n in ast.walk(fi.node) if isinstance(n, ast.Attribute) and isinstance(n.value, ast.Name) and n.value.id == name and n is not getattr(but, "func", None)]
+    mem = _members(ci)
+    return bool(uses) and all(u.attr in mem for u in uses) and any(not _builtin_method(u.attr) for u in uses)
+
+
+def _builtin_method(name: str) -> bool:
+    return any(hasattr(t, name) for t in (dict, list, set, frozenset, str, bytes, bytearray, tuple, int, float, object)) or name in (
+        "appendleft", "popleft", "acquire", "release", "put", "get_nowait", "info", "debug", "warning", "error", "exception", "done", "result", "cancel")
+
+
+def _property_call(ctx: Ctx, fi: FuncInfo, e: ast.AST) -> ast.Call | None:
+    """<object>.<name> where <name> is a @property of the (only) class of this module that defines it: the call it performs"""
+    e = strip_cast(e)
+    if not (isinstance(e, ast.Attribute) and isinstance(e.ctx, ast.Load)):
+        return None
+    call = ast.copy_location(ast.Call(func=e, args=[], keywords=[]), e)
+    t, _bs = _callee(ctx, fi, call)
+    if isinstance(t, FuncInfo) and "property" in t.decorator_names() and len(t.params()) == 1:
+        return call
+    return None
+
+
+def _callable_leaves(fi: FuncInfo, e: ast.AST, depth: int = 4) -> list[ast.AST] | None:
+    """The expressions a called value can stand for when it is picked from a closed set: a conditional expression, `a or b`,
+    a subscript / .get() of a dict or tuple literal (dispatch table), a local assigned such values (all assignments).
+    None when the set is not closed (parameter, computed value)."""
+    e = strip_cast(e)
+    if depth <= 0:
+        return None
+    if isinstance(e, ast.IfExp):
+        a, b = _callable_leaves(fi, e.body, depth - 1), _callable_leaves(fi, e.orelse, depth - 1)
+        return None if a is None or b is None else a + b
+    if isinstance(e, ast.BoolOp) and isinstance(e.op, ast.Or):
+        parts = [_callable_leaves(fi, v, depth - 1) for v in e.values]
+        return None if any(x is None for x in parts) else [y for x in parts for y in x]
+    def table(t: ast.AST):
+        """the table expression itself, or the class-level / module-level constant it names"""
+        t = strip_cast(t)
+        if isinstance(t, ast.Attribute) and isinstance(t.value, ast.Name) and fi.cls is not None and t.value.id in ("self", "cls", fi.cls.name):
+            x = next((c.attrs[t.attr] for c in fi.cls.mro() if t.attr in c.attrs), None)
+            return (x, True) if x is not None else (t, False)
+        if isinstance(t, ast.Name) and not local_defs(fi, t.id) and t.id not in fi.params() and t.id in fi.module.constants:
+            return fi.module.constants[t.id], False
+        return t, False
+
+    def members(vals, in_class: bool):
+        out = []
+        for v in vals:
+            v = strip_cast(v)
+            if in_class and isinstance(v, ast.Name) and fi.cls is not None and fi.cls.lookup(v.id) is not None:
+                v = ast.copy_location(ast.Attribute(value=ast.Name(id=fi.cls.name, ctx=ast.Load()), attr=v.id, ctx=ast.Load()), v)   # a method named in the class body
+            x = _callable_leaves(fi, v, depth - 1)
+            if x is None:
+                return None
+            out.extend(x)
+        return out
+    if isinstance(e, ast.Subscript):
+        t, in_class = table(e.value)
+        pairs = _dict_pairs(fi, t, depth)
+        vals = [v for _k, v in pairs] if pairs is not None else _elems(fi, t, depth)
+        return None if vals is None else members(vals, in_class)
+    if isinstance(e, ast.Call) and isinstance(e.func, ast.Attribute) and e.func.attr == "get" and len(e.args) == 2 and not e.keywords:
+        t, in_class = table(e.func.value)
+        pairs = _dict_pairs(fi, t, depth)
+        return None if pairs is None else members([*[v for _k, v in pairs], e.args[1]], in_class)
+    if isinstance(e, ast.Name) and e.id not in fi.params():
+        defs = local_defs(fi, e.id)
+        if not defs:
+            return [e]
+        if any(v is None or idx is not None for _st, v, idx in defs):
+            return None
+        return members([v for _st, v, _i in defs], False)
+    if isinstance(e, (ast.Name, ast.Attribute, ast.Lambda)):
+        return [e]
+    return None
+
+
+def _callees(ctx: Ctx, fi: FuncInfo, call: ast.Call) -> list[tuple[object, bool, ast.Call]]:
+    """(target, binds_self, the call as if it named that target) for every function the call can run: the one _callee
+    finds, or - for a callable picked from a closed set (conditional expression, dispatch table) - each member of the set"""
+    t, bs = _callee(ctx, fi, call)
+    if t is not None:
+        return [(t, bs, call)]
+    if isinstance(call.func, (ast.Attribute, ast.Lambda)):
+        return []
+    leaves = _callable_leaves(fi, call.func)
+    if not leaves or any(l is call.func for l in leaves):
+        return []
+    out = []
+    for l in leaves:
+        c2 = ast.copy_location(ast.Call(func=l, args=call.args, keywords=call.keywords), call)
+        t, bs = _callee(ctx, fi, c2)
+        if t is None:
+            return []                                                     # one member is not visible: the set is not decided
+        out.append((t, bs, c2))
+    return out
 
 
 def _bind_args(fn, call: ast.Call, binds_self: bool) -> dict[str, ast.AST] | None:
@@ -653,13 +854,16 @@ class _Closure:
             if isinstance(n, (*_FUNCS, ast.Lambda)) and n is not fr.fi.node:
                 continue
             self.nodes.append((fr, n))
-            if isinstance(n, ast.Call) and fr.depth < self.maxdepth:
-                target, binds_self = _callee(self.ctx, fr.fi, n)
+            for target, binds_self, shaped in (_callees(self.ctx, fr.fi, n) if isinstance(n, ast.Call) and fr.depth < self.maxdepth else ()):
                 if not isinstance(target, FuncInfo) or id(target.node) in active or target.is_async:
                     continue                                              # (a generator's body runs while it is iterated: same call tree)
-                if isinstance(n.func, ast.Attribute) and not (isinstance(n.func.value, ast.Name) and n.func.value.id in ("self", "cls", fr.fi.cls.name if fr.fi.cls else "")):
-                    continue
-                env = _bind_args(target.node, n, binds_self)
+                if isinstance(shaped.func, ast.Attribute) and not (isinstance(shaped.func.value, ast.Name)
+                                                                   and shaped.func.value.id in ("self", "cls", fr.fi.cls.name if fr.fi.cls else "")):
+                    # a method of another object: followed when the receiver is a plain local / parameter (its `self` is bound to
+                    # that expression), so that a guard at the call site and the guarded statement inside the method meet
+                    if not binds_self:
+                        continue
+                env = _bind_args(target.node, shaped, binds_self)
                 if env is None:
                     continue
                 orig_id = id(target.node)
@@ -941,6 +1145,8 @@ def _tag_facts(ctx: Ctx, fi: FuncInfo, name: str, accept, site: ast.AST | None, 
     defs = local_defs(fi, name)
     if len(defs) < 2 or name in fi.params() or site is None or depth <= 0:
         return []
+    if ctx.cfg(fi).nodes_for(site):
+        defs = _reaching(ctx, fi, name, site) or defs                   # the assignments whose value the test can see
     if any(v is None or idx is not None for _st, v, idx in defs):
         return []
     per = []
@@ -981,7 +1187,39 @@ def _ret_sites(ctx: Ctx, target) -> list[tuple[ast.AST | None, ast.AST]] | None:
     return out
 
 
-def _implied_by_result(ctx: Ctx, fi: FuncInfo, call: ast.Call, accept, value_pol: bool | None, depth: int) -> list[Fact]:
+def _result_projection(fi: FuncInfo, e: ast.AST):
+    """e reads ONE COMPONENT of what a helper returned - `ok` after `ok, why = self._h(x)`, or `res.ok` after `res = self._h(x)`:
+    (the call, project(function of the return, returned expression) -> the component's expression | None, the local's name)"""
+    e = strip_cast(e)
+    if isinstance(e, ast.Name):
+        d = single_def(fi, e.id)
+        if d is not None and isinstance(d[1], int) and isinstance(strip_cast(d[0]), ast.Call):
+            idx = d[1]
+
+            def project_item(tfi, v, idx=idx):
+                v = strip_cast(resolve(tfi, v)) if isinstance(tfi, FuncInfo) else strip_cast(v)
+                if isinstance(v, ast.Tuple) and idx < len(v.elts) and not any(isinstance(x, ast.Starred) for x in v.elts):
+                    return v.elts[idx]
+                return None
+            return strip_cast(d[0]), project_item, e.id
+    if isinstance(e, ast.Attribute) and isinstance(e.value, ast.Name) and isinstance(e.ctx, ast.Load):
+        d = single_def(fi, e.value.id)
+        if d is not None and d[1] is None and isinstance(strip_cast(d[0]), ast.Call):
+            field = e.attr
+
+            def project_field(tfi, v, field=field):
+                v = strip_cast(resolve(tfi, v)) if isinstance(tfi, FuncInfo) else strip_cast(v)
+                mod = tfi.module if isinstance(tfi, FuncInfo) else fi.module
+                if not (isinstance(v, ast.Call) and isinstance(v.func, ast.Name) and v.func.id in mod.classes):
+                    return None
+                lay = _class_layout(mod, mod.classes[v.func.id].node)
+                fm = _bind_record(lay, v) if lay is not None else None
+                return fm.get(field) if fm is not None else None
+            return strip_cast(d[0]), project_field, e.value.id
+    return None
+
+
+def _implied_by_result(ctx: Ctx, fi: FuncInfo, call: ast.Call, accept, value_pol: bool | None, depth: int, project=None) -> list[Fact]:
     """Conditions (fi's vocabulary) that hold whenever `call` - a helper, closure or lambda - returned a value v with
     accept(v) not False: the conditions common to all such returns (path conditions of the return + what the returned
     expression being truthy / falsy says), parameters replaced by the call's arguments."""
@@ -995,6 +1233,11 @@ def _implied_by_result(ctx: Ctx, fi: FuncInfo, call: ast.Call, accept, value_pol
         return []
     if isinstance(target, FuncInfo) and target.node is fi.node:
         return []
+    if project is not None:
+        # the caller looks at one component of the result: the same reasoning on that component of every returned value
+        rets = [(r, project(target, v)) for r, v in rets]
+        if any(v is None for _r, v in rets):
+            return []
     locals_ = _bound_locals(fn) if isinstance(target, FuncInfo) else set()
     tag = fn.name if isinstance(target, FuncInfo) else "lambda"
 
@@ -1005,7 +1248,7 @@ def _implied_by_result(ctx: Ctx, fi: FuncInfo, call: ast.Call, accept, value_pol
         m = dict(env)
         for l in locals_:
             m.setdefault(l, ast.Name(id=f"{l}@{tag}", ctx=ast.Load()))
-        return _subst(e, m)
+        return _fold(_subst(e, m))                                        # (k, v)[1] -> v for a parameter bound to a pair
 
     per: list[list[Fact]] = []
     for r, v in rets:
@@ -1025,14 +1268,17 @@ def _implied_by_result(ctx: Ctx, fi: FuncInfo, call: ast.Call, accept, value_pol
     return _intersect(per)
 
 
-def _next_facts(fi: FuncInfo, name: ast.Name, value: ast.AST) -> list[Fact]:
+def _next_facts(fi: FuncInfo, name: ast.Name, value: ast.AST, ctx: Ctx | None = None, depth: int = 2) -> list[Fact]:
     """x = next(<generator over candidates with filter>, <constant default>) and x is known not to be the default: x is
-    an element of the generator, so the filter holds for x."""
+    an element of the generator, so the filter holds for x.  (Also next(filter(pred, candidates), default): pred(x) holds.)"""
     if not (isinstance(value, ast.Call) and chain(value.func) == "next" and 1 <= len(value.args) <= 2 and not value.keywords):
         return []
     g = strip_cast(value.args[0])
     if isinstance(g, ast.Call) and chain(g.func) == "iter" and len(g.args) == 1:
         g = g.args[0]
+    if isinstance(g, ast.Call) and chain(g.func) == "filter" and len(g.args) == 2 and not g.keywords and ctx is not None and const_value(g.args[0]) is not None:
+        call = ast.copy_location(ast.Call(func=g.args[0], args=[ast.Name(id=name.id, ctx=ast.Load())], keywords=[]), value)
+        return _implied_by_result(ctx, fi, call, lambda e: None if const_value(e) is NOCONST else bool(const_value(e)), True, depth)
     if not isinstance(g, _COMPS) or not isinstance(g.elt, ast.Name):
         return []
     var = g.elt.id
@@ -1043,6 +1289,77 @@ def _next_facts(fi: FuncInfo, name: ast.Name, value: ast.AST) -> list[Fact]:
     return out
 
 
+def _fact_site(ctx: Ctx, fi: FuncInfo, f: Fact, site: ast.AST | None) -> ast.AST | None:
+    """Where a condition was evaluated: its own test when that is part of fi's control-flow graph.  A flag / decision
+    local stands for the expression it was assigned if nothing changes that expression's value up to the TEST of the flag
+    (what happens between the test and the guarded statement is the same as for a condition written out in the test)."""
+    if site is not None and f.atom is not None and any(a is fi.node for a in ancestors(f.atom)) and ctx.cfg(fi).nodes_for(f.atom):
+        return f.atom
+    return site
+
+
+def _tag_test(f: Fact):
+    """f tests a local against constants: (name, accept(leaf expression) -> bool | None, polarity for computed values | None)"""
+    left = strip_cast(f.left) if f.left is not None else None
+    if f.op == "truthy" and isinstance(left, ast.Name):
+        return left.id, (lambda e, pos=f.pos: bool(const_value(e)) == pos), f.pos
+    if f.right is None:
+        return None
+    if f.op == "in" and isinstance(left, ast.Name) and isinstance(f.right, (ast.Tuple, ast.List, ast.Set)):
+        vals = [const_value(x) for x in f.right.elts]
+        if any(v is NOCONST for v in vals):
+            return None
+        return left.id, (lambda e, vals=vals, pos=f.pos: (const_value(e) in vals) == pos), None
+    if f.op in ("eq", "is"):
+        for a, b in ((f.left, f.right), (f.right, f.left)):
+            a = strip_cast(a)
+            c = const_value(b)
+            if c is NOCONST or isinstance(b, ast.Tuple) or not isinstance(a, ast.Name):
+                continue
+            if f.op == "is" and c is not None and not isinstance(c, bool):
+                continue                                                  # identity with another constant says nothing about equality
+            if f.op == "is":
+                return a.id, (lambda e, c=c, pos=f.pos: (const_value(e) is c) == pos), None
+            return a.id, (lambda e, c=c, pos=f.pos: (const_value(e) == c) == pos), None
+    return None
+
+
+def _joint_tag_facts(ctx: Ctx, fi: FuncInfo, base: list[Fact], site: ast.AST, depth: int) -> list[Fact]:
+    """Several dominating tests of the same decision local (`if kind == A: return` ... `if kind == B: return` ... site): the
+    assignments that can pass ALL of them.  Only tests that see the same assignments, with no assignment between them."""
+    groups: dict[str, list[tuple[Fact, object]]] = {}
+    for f in base:
+        t = _tag_test(f)
+        if t is not None and single_def(fi, t[0]) is None and t[0] not in fi.params() and f.atom is not None and _fact_site(ctx, fi, f, site) is f.atom:
+            groups.setdefault(t[0], []).append((f, t[1]))
+    out: list[Fact] = []
+    cfg = ctx.cfg(fi)
+    for name, tests in groups.items():
+        if len(tests) < 2:
+            continue
+        key = lambda a: sorted(id(st) for st, _v, _i in _reaching(ctx, fi, name, a))  # noqa: E731
+        first = tests[0][0].atom
+        same = [(f, acc) for f, acc in tests if key(f.atom) == key(first)]
+        defnodes = [x for st, _v, _i in local_defs(fi, name) for x in cfg.nodes_for(st)]
+        atoms = [x for f, _a in same for x in cfg.nodes_for(f.atom)]
+        if len(same) < 2:
+            continue
+        # an assignment that is reachable from one test and from which another test is reachable lies between two tests:
+        # they may speak about different values
+        after = cfg.reach([v for x in atoms for v, lab in x.succ if lab != "exc"])
+        if any(d in after and any(a in cfg.reach([v for v, lab in d.succ if lab != "exc"]) for a in atoms) for d in defnodes):
+            continue
+
+        def accept(e, same=same):
+            res = [acc(e) for _f, acc in same]
+            return False if any(r is False for r in res) else (None if any(r is None for r in res) else True)
+        got = _tag_facts(ctx, fi, name, accept, first, depth - 1)
+        out.extend(got)
+        for g in got:
+            out.extend(_expand_fact(ctx, fi, g, site, depth - 1))
+    return out
+
+
 def _expand_fact(ctx: Ctx, fi: FuncInfo, f: Fact, site: ast.AST | None, depth: int = 3) -> list[Fact]:
     """Conditions that follow from f: a flag local stands for the expression it was assigned (if nothing in between can
     change it), a predicate helper's result stands for the conditions under which it returns that result, an element
@@ -1050,23 +1367,32 @@ def _expand_fact(ctx: Ctx, fi: FuncInfo, f: Fact, site: ast.AST | None, depth: i
     if depth <= 0:
         return []
     out: list[Fact] = []
+    site = _fact_site(ctx, fi, f, site)
     left = strip_cast(f.left) if f.left is not None else None
     none_test = f.op == "is" and f.right is not None and isinstance(f.right, ast.Constant) and f.right.value is None
+    proj = _result_projection(fi, left) if left is not None else None
+    if proj is not None and (site is None or _stable_between(ctx, fi, proj[2], site)):
+        pcall, project, _pname = proj
+        if f.op == "truthy":
+            out.extend(_implied_by_result(ctx, fi, pcall, lambda e, pol=f.pos: None if const_value(e) is NOCONST else bool(const_value(e)) == pol, f.pos, depth - 1, project))
+        elif none_test:
+            out.extend(_implied_by_result(ctx, fi, pcall, lambda e, pos=f.pos: None if const_value(e) is NOCONST else (const_value(e) is None) == pos, None, depth - 1, project))
+        elif f.op == "eq" and f.right is not None and const_value(f.right) is not NOCONST and not isinstance(f.right, ast.Tuple):
+            out.extend(_implied_by_result(ctx, fi, pcall, lambda e, c=const_value(f.right), pos=f.pos: None if const_value(e) is NOCONST else (const_value(e) == c) == pos,
+                                          None, depth - 1, project))
     if f.op == "truthy" or none_test:
         is_set = f.pos if f.op == "truthy" else not f.pos           # the value is known to be truthy / not None
         if isinstance(left, ast.Name):
             d = single_def(fi, left.id)
             if d is None:
-                def accept_tag(e, is_set=is_set, truthy=f.op == "truthy"):
-                    c = const_value(e)
-                    return (bool(c) if truthy else c is not None) == is_set
-                out.extend(_tag_facts(ctx, fi, left.id, accept_tag, site, depth - 1, f.pos if f.op == "truthy" else None))
+                t = _tag_test(f)
+                out.extend(_tag_facts(ctx, fi, left.id, t[1], site, depth - 1, t[2]))
             if d is not None and d[1] is None and (site is None or _stable_between(ctx, fi, left.id, site)):
                 v = strip_cast(d[0])
                 if is_set:
                     dflt = v.args[1] if isinstance(v, ast.Call) and chain(v.func) == "next" and len(v.args) == 2 else None
                     if dflt is not None and isinstance(dflt, ast.Constant) and (dflt.value is None or (f.op == "truthy" and not dflt.value)):
-                        out.extend(_next_facts(fi, left, v))
+                        out.extend(_next_facts(fi, left, v, ctx, depth - 1))
                 if f.op == "truthy":
                     out.extend(_atoms_with_polarity(v, f.pos))
                 elif isinstance(v, ast.Call):
@@ -1074,23 +1400,24 @@ def _expand_fact(ctx: Ctx, fi: FuncInfo, f: Fact, site: ast.AST | None, depth: i
                         c = const_value(e)
                         return None if c is NOCONST else (c is not None) == is_set
                     out.extend(_implied_by_result(ctx, fi, v, accept_none, None, depth - 1))
-        elif isinstance(left, ast.Call) and f.op == "truthy":
+        elif f.op == "truthy" and (isinstance(left, ast.Call) or _property_call(ctx, fi, left) is not None):
             pol = f.pos
 
             def accept(e, pol=pol):
                 c = const_value(e)
                 return None if c is NOCONST else bool(c) == pol
-            out.extend(_implied_by_result(ctx, fi, left, accept, pol, depth - 1))
-    elif f.op == "eq" and f.right is not None:
-        for a, b in ((f.left, f.right), (f.right, f.left)):
+            out.extend(_implied_by_result(ctx, fi, left if isinstance(left, ast.Call) else _property_call(ctx, fi, left), accept, pol, depth - 1))
+    elif f.op in ("eq", "is", "in") and f.right is not None:
+        t = _tag_test(f)
+        if t is not None and single_def(fi, t[0]) is None:
+            out.extend(_tag_facts(ctx, fi, t[0], t[1], site, depth - 1))
+        for a, b in (((f.left, f.right), (f.right, f.left)) if f.op == "eq" else ()):
             c = const_value(b)
             if c is NOCONST or isinstance(b, ast.Tuple):
                 continue
             a = strip_cast(a)
             if isinstance(a, ast.Name):
                 d = single_def(fi, a.id)
-                if d is None:
-                    out.extend(_tag_facts(ctx, fi, a.id, lambda e, c=c, pos=f.pos: (const_value(e) == c) == pos, site, depth - 1))
                 a = strip_cast(d[0]) if d is not None and d[1] is None else a
             if isinstance(a, ast.Call):
                 def accept_eq(e, c=c, pos=f.pos):
@@ -1114,6 +1441,8 @@ def _result_expr(ctx: Ctx, fi: FuncInfo, e: ast.AST) -> ast.AST | None:
     if isinstance(e, ast.Name):
         d = single_def(fi, e.id)
         e = strip_cast(d[0]) if d is not None and d[1] is None else e
+    if isinstance(e, ast.Attribute):
+        e = _property_call(ctx, fi, e) or e
     if not isinstance(e, ast.Call):
         return None
     target, binds_self = _callee(ctx, fi, e)
@@ -1219,10 +1548,12 @@ def _loop_filter_facts(ctx: Ctx, fi: FuncInfo, site: ast.AST, depth: int = 3) ->
                for s in a.body for n in ast.walk(s)):
             continue                                                      # the loop variable is rebound in the body
         it = _strip_snapshot(resolve(fi, _strip_snapshot(a.iter)))
-        if isinstance(it, ast.Call) and chain(it.func) == "filter" and len(it.args) == 2 and isinstance(a.target, ast.Name):
+        if isinstance(it, ast.Call) and chain(it.func) == "filter" and len(it.args) == 2 and _names_shape(a.target) is not None:
             pred = it.args[0]
             if not (isinstance(pred, ast.Constant) and pred.value is None):
-                call = ast.Call(func=pred, args=[ast.Name(id=a.target.id, ctx=ast.Load())], keywords=[])
+                # the predicate is called with the element the loop target is bound to (a pair for `for k, v in filter(p, items)`)
+                elem = ast.fix_missing_locations(ast.copy_location(ast.parse(norm(a.target), mode="eval").body, a.target))
+                call = ast.Call(func=pred, args=[elem], keywords=[])
                 out.extend(_implied_by_result(ctx, fi, call, lambda e: None if const_value(e) is NOCONST else bool(const_value(e)), True, depth))
             continue
         if isinstance(it, ast.Call):
@@ -1251,6 +1582,7 @@ def _local_facts(ctx: Ctx, fi: FuncInfo, site: ast.AST, depth: int = 3) -> list[
     out = list(base)
     for f in base:
         out.extend(_expand_fact(ctx, fi, f, site, depth))
+    out.extend(_joint_tag_facts(ctx, fi, base, site, depth))
     return [Fact(f.op, _expand(fi, f.left), _expand(fi, f.right) if f.right is not None else None, f.pos, f.atom) for f in out] + out
 
 
@@ -1419,7 +1751,27 @@ def _sym_returns(fi: FuncInfo) -> list[tuple[ast.Return, tuple, ast.AST]]:
                 if st.value is not None:
                     env[st.target.id] = _subst(strip_cast(st.value), env)
             elif isinstance(st, ast.AugAssign) and isinstance(st.target, ast.Name) and st.target.id in env:
-                env[st.target.id] = ast.BinOp(left=env[st.target.id], op=st.op, right=_subst(st.value, env))
+                right = _subst(st.value, env)
+                if isinstance(env[st.target.id], ast.List) and isinstance(st.op, ast.Add) and isinstance(right, (ast.List, ast.Tuple)):
+                    env[st.target.id] = ast.List(elts=[*env[st.target.id].elts, *right.elts], ctx=ast.Load())
+                elif isinstance(env[st.target.id], ast.List):
+                    raise _Unsupported
+                else:
+                    env[st.target.id] = ast.BinOp(left=env[st.target.id], op=st.op, right=right)
+            elif isinstance(st, ast.Expr) and isinstance(st.value, ast.Call) and isinstance(st.value.func, ast.Attribute) and isinstance(st.value.func.value, ast.Name) \
+                    and isinstance(env.get(st.value.func.value.id), ast.List) and not st.value.keywords and not any(isinstance(x, ast.Starred) for x in st.value.args):
+                # a local list literal that is built up piece by piece: parts = [a]; parts.append(b)  ->  [a, b]
+                name, c = st.value.func.value.id, st.value
+                cur = list(env[name].elts)
+                if c.func.attr == "append" and len(c.args) == 1:
+                    cur.append(_subst(c.args[0], env))
+                elif c.func.attr == "extend" and len(c.args) == 1 and isinstance(_subst(c.args[0], env), (ast.List, ast.Tuple)):
+                    cur.extend(_subst(c.args[0], env).elts)
+                elif c.func.attr == "insert" and len(c.args) == 2 and const_value(c.args[0]) == 0:
+                    cur.insert(0, _subst(c.args[1], env))
+                else:
+                    raise _Unsupported
+                env[name] = ast.List(elts=cur, ctx=ast.Load())
             elif isinstance(st, ast.If):
                 t = _subst(st.test, env)
                 e1 = run(st.body, dict(env), conds + ((t, True),))
@@ -1475,6 +1827,39 @@ def _alternatives(e: ast.AST, conds: tuple = (), budget: int = 64) -> list[tuple
             continue                                                      # same test already decided the other way on this path
         out.extend(_alternatives(_replace(e, node, br), conds + ((node.test, pol),), budget // 2))
     return out
+
+
+def _concat_joins(e: ast.AST) -> ast.AST:
+    """''.join([a, b]) / ''.join((a, b)) / '{}{}'.format(a, b) -> a + b (the same string), a conditional list pushed outwards"""
+    def concat(parts: list, at: ast.AST) -> ast.AST:
+        if not parts:
+            return ast.copy_location(ast.Constant(value=""), at)
+        out = parts[0]
+        for x in parts[1:]:
+            out = ast.copy_location(ast.BinOp(left=out, op=ast.Add(), right=x), at)
+        return out
+
+    def joined(seq: ast.AST, at: ast.AST):
+        seq = strip_cast(seq)
+        if isinstance(seq, (ast.List, ast.Tuple)) and not any(isinstance(x, ast.Starred) for x in seq.elts):
+            return concat(list(seq.elts), at)
+        if isinstance(seq, ast.IfExp):
+            a, b = joined(seq.body, at), joined(seq.orelse, at)
+            return None if a is None or b is None else ast.copy_location(ast.IfExp(test=seq.test, body=a, orelse=b), at)
+        return None
+
+    class T(ast.NodeTransformer):
+        def visit_Call(self, n):
+            self.generic_visit(n)
+            if isinstance(n.func, ast.Attribute) and not n.keywords and isinstance(const_value(n.func.value), str):
+                fmt = const_value(n.func.value)
+                if n.func.attr == "join" and fmt == "" and len(n.args) == 1:
+                    new = joined(n.args[0], n)
+                    return new if new is not None else n
+                if n.func.attr == "format" and n.args and fmt == "{}" * len(n.args) and not any(isinstance(x, ast.Starred) for x in n.args):
+                    return concat(list(n.args), n)
+            return n
+    return T().visit(e)
 
 
 def _leads_with_prefix(s: ast.AST) -> bool:
@@ -1583,12 +1968,21 @@ def _int_of_bytes(e: ast.AST, p: str, ctx: Ctx | None = None, depth: int = 2, la
     e = strip_cast(e)
     if not isinstance(e, ast.Call):
         return False
+
+    def is_p(x: ast.AST) -> bool:
+        """the parameter itself; lax: also a slice / item of it or bytes(...) of that - the same construction over a part of the id"""
+        x = strip_cast(x)
+        if norm(x) == p:
+            return True
+        if lax and isinstance(x, ast.Call) and chain(x.func) in ("bytes", "bytearray", "memoryview") and len(x.args) == 1:
+            x = strip_cast(x.args[0])
+        return lax and isinstance(x, ast.Subscript) and norm(strip_cast(x.value)) == p
     if isinstance(e.func, ast.Call) and chain(e.func.func) in ("partial", "functools.partial") and e.func.args \
             and not any(isinstance(x, ast.Starred) for x in [*e.func.args, *e.args]):
         # partial(f, *a, **k)(*b) == f(*a, *b, **k)
         e = ast.Call(func=e.func.args[0], args=[*e.func.args[1:], *e.args], keywords=[*e.func.keywords, *e.keywords])
     c = chain(e.func)
-    if ctx is not None and depth > 0 and isinstance(e.func, ast.Name) and len(e.args) == 1 and not e.keywords and norm(e.args[0]) == p:
+    if ctx is not None and depth > 0 and isinstance(e.func, ast.Name) and len(e.args) == 1 and not e.keywords and is_p(e.args[0]):
         g = ctx.repo.module(RT).functions.get(e.func.id)
         if g is not None and len(g.params()) == 1 and not _is_generator(g.node):
             alts = _return_alternatives(g)
@@ -1597,12 +1991,12 @@ def _int_of_bytes(e: ast.AST, p: str, ctx: Ctx | None = None, depth: int = 2, la
         h = strip_cast(e.args[0])
         if isinstance(h, ast.Call) and not h.keywords:
             hc = chain(h.func)
-            if hc in ("binascii.hexlify", "hexlify") and len(h.args) == 1 and norm(h.args[0]) == p:
+            if hc in ("binascii.hexlify", "hexlify") and len(h.args) == 1 and is_p(h.args[0]):
                 return True
-            if hc == f"{p}.hex" and not h.args:
+            if isinstance(h.func, ast.Attribute) and h.func.attr == "hex" and is_p(h.func.value) and not h.args:
                 return True
         return False
-    if c == "int.from_bytes" and e.args and norm(e.args[0]) == p:
+    if c == "int.from_bytes" and e.args and is_p(e.args[0]):
         order = arg(e, 1, "byteorder")
         return lax or (order is not None and const_value(order) == "big")
     return False
@@ -1622,14 +2016,29 @@ def _is_bin160(e: ast.AST, p: str, ctx: Ctx | None = None, lax: bool = False) ->
             and isinstance(e.args[0], (ast.GeneratorExp, ast.ListComp)) and len(e.args[0].generators) == 1 and not e.args[0].generators[0].ifs:
         # byte by byte, 8 bits each: the same 160 characters for a 20-byte id (ids are 20 bytes: calc_node_id)
         g, elt = e.args[0].generators[0], strip_cast(e.args[0].elt)
-        if isinstance(g.target, ast.Name) and norm(strip_cast(g.iter)) == p:
-            b = g.target.id
+
+        def byte_bits(elt: ast.AST, b: str, depth: int = 2) -> bool:
+            """elt is the 8 character binary rendering of the byte value named b"""
             if isinstance(elt, ast.Call) and chain(elt.func) == "format" and len(elt.args) == 2 and norm(elt.args[0]) == b and spec_ok(elt.args[1], "08b"):
+                return True
+            if isinstance(elt, ast.Call) and isinstance(elt.func, ast.Attribute) and elt.func.attr == "format" and len(elt.args) == 1 and not elt.keywords \
+                    and norm(elt.args[0]) == b and (const_value(elt.func.value) in ("{:08b}", "{0:08b}") or (lax and isinstance(const_value(elt.func.value), str))):
                 return True
             if isinstance(elt, ast.JoinedStr) and len(elt.values) == 1 and isinstance(elt.values[0], ast.FormattedValue) and norm(elt.values[0].value) == b \
                     and isinstance(elt.values[0].format_spec, ast.JoinedStr) and len(elt.values[0].format_spec.values) == 1 \
                     and spec_ok(elt.values[0].format_spec.values[0], "08b"):
                 return True
+            if isinstance(elt, ast.Subscript) and isinstance(elt.value, ast.Name) and norm(elt.slice) == b and ctx is not None and depth > 0:
+                # a module-level table: TABLE = tuple(format(v, "08b") for v in range(256)); TABLE[byte]
+                t = ctx.repo.module(RT).constants.get(elt.value.id)
+                t = _strip_snapshot(strip_cast(t)) if t is not None else None
+                if isinstance(t, (ast.ListComp, ast.GeneratorExp)) and len(t.generators) == 1 and not t.generators[0].ifs and isinstance(t.generators[0].target, ast.Name):
+                    r = strip_cast(t.generators[0].iter)
+                    if isinstance(r, ast.Call) and chain(r.func) == "range" and len(r.args) == 1 and const_value(r.args[0]) == 256:
+                        return byte_bits(strip_cast(t.elt), t.generators[0].target.id, depth - 1)
+            return False
+        if isinstance(g.target, ast.Name) and norm(strip_cast(g.iter)) == p:
+            return byte_bits(elt, g.target.id)
         return False
     if isinstance(e, ast.Call) and chain(e.func) == "format" and len(e.args) == 2 and not e.keywords:
         return spec_ok(e.args[1], "0160b") and ioB(e.args[0])
@@ -1863,6 +2272,9 @@ def rule_bucket(ctx: Ctx) -> None:
     ib = repo.func(RT, "id_to_binary_string")
     alts = _return_alternatives(ib)
     state = _tri(bool(alts) and all(_is_bin160(v, ib.params()[0], ctx) for v in alts), bool(alts) and all(_is_bin160(v, ib.params()[0], ctx, lax=True) for v in alts))
+    if state is None and len(ib.params()) == 1:
+        # not a known spelling: evaluated for sample 20-byte ids (pure integer / bytes / string arithmetic only)
+        state = _agrees_on_samples(ctx, ib, lambda x: format(int.from_bytes(x, "big"), "0160b"), [(x,) for x in _SAMPLE_IDS])
     _verdict(ctx, state, "bucket-insert", ib, ib.node, "binary id = 160-bit zero-padded big-endian", "id_to_binary_string is no longer the 160-bit big-endian rendering",
              unknown="id_to_binary_string is not one of the known renderings (format / f-string / bin().zfill / per-byte join): not decided")
     # removal from a bucket only of BAD nodes / slow nodes when full; pops are keyed by the node's own id
@@ -1877,6 +2289,11 @@ def rule_bucket(ctx: Ctx) -> None:
 
 def _child_frame(cl: _Closure, call: ast.Call) -> _Frame | None:
     return next((f for f in cl.frames if f.site is call), None)
+
+
+def _child_frames(cl: _Closure, call: ast.Call) -> list[_Frame]:
+    """the activations a call starts (several when the callee is picked from a dispatch table / conditional expression)"""
+    return [f for f in cl.frames if f.site is call]
 
 
 def _denotes_split(cl: _Closure, fr: _Frame, e: ast.AST, site: ast.AST, recv: str, depth: int = 8) -> bool | None:
@@ -1920,10 +2337,10 @@ def _denotes_split(cl: _Closure, fr: _Frame, e: ast.AST, site: ast.AST, recv: st
                 out.append(_project(cl, fr, v, idx, st, recv, depth - 1))
         return combine(out)
     if isinstance(e, ast.Call):
-        child = _child_frame(cl, e)
-        if child is not None:
-            rets = [r for r in walk_no_nested(child.fi.node) if isinstance(r, ast.Return)]
-            return combine(_denotes_split(cl, child, r.value, r, recv, depth - 1) if r.value is not None else None for r in rets)
+        kids = _child_frames(cl, e)
+        if kids:
+            return combine(_denotes_split(cl, child, r.value, r, recv, depth - 1) if r.value is not None else None
+                           for child in kids for r in walk_no_nested(child.fi.node) if isinstance(r, ast.Return))
     return False
 
 
@@ -1935,10 +2352,10 @@ def _project(cl: _Closure, fr: _Frame, v: ast.AST, idx: int, site: ast.AST, recv
     if isinstance(v, (ast.Tuple, ast.List)) and idx < len(v.elts) and not any(isinstance(x, ast.Starred) for x in v.elts):
         return _denotes_split(cl, fr, v.elts[idx], site, recv, depth - 1)
     if isinstance(v, ast.Call):
-        child = _child_frame(cl, v)
-        if child is not None:
-            rets = [r for r in walk_no_nested(child.fi.node) if isinstance(r, ast.Return)]
-            parts = [_project(cl, child, r.value, idx, r, recv, depth - 1) if r.value is not None else False for r in rets]
+        kids = _child_frames(cl, v)
+        if kids:
+            parts = [_project(cl, child, r.value, idx, r, recv, depth - 1) if r.value is not None else False
+                     for child in kids for r in walk_no_nested(child.fi.node) if isinstance(r, ast.Return)]
             if not parts or any(p is False for p in parts):
                 return False
             return True if any(p is True for p in parts) else None
@@ -1961,6 +2378,14 @@ def _split_index(cl: _Closure, fr: _Frame, v: ast.AST, recv: str, site: ast.AST,
         i = const_value(v.slice)
         if isinstance(i, int) and not isinstance(i, bool) and i in (0, 1) and _denotes_split(cl, fr, v.value, site, recv) is True:
             return i
+        return None
+    if isinstance(v, ast.Attribute) and isinstance(v.ctx, ast.Load) and _denotes_split(cl, fr, v.value, site, recv) is True:
+        # split() returns a NamedTuple: the field read is the element at the field's position
+        sf = cl.ctx.repo.method("Bucket", "split", RT)
+        names = {r.value.func.id for r in walk_no_nested(sf.node) if isinstance(r, ast.Return) and isinstance(r.value, ast.Call) and isinstance(r.value.func, ast.Name)}
+        fields = _namedtuple_fields(sf, next(iter(names))) if len(names) == 1 else None
+        if fields is not None and len(fields) == 2 and v.attr in fields:
+            return fields.index(v.attr)
         return None
     if isinstance(v, ast.Name):
         rs = _reaching(cl.ctx, fr.fi, v.id, site)
@@ -2071,7 +2496,38 @@ def _value_leaves(fi: FuncInfo, e: ast.AST, site: ast.AST, depth: int = 6, seen=
         return None if a is None or b is None else a + b
     if isinstance(e, ast.NamedExpr):
         return _value_leaves(fi, e.value, e.value, depth - 1, seen)
+    alt = _first_truthy(e)
+    if alt is not None:
+        return _value_leaves(fi, alt, alt, depth - 1, seen)
     return [(e, site)]
+
+
+def _first_truthy(e: ast.AST) -> ast.BoolOp | None:
+    """next(filter(None, (a, b)))  /  next(x for x in (a, b) if x)  /  the same with a default d: the first truthy element, i.e.
+    `a or b [or d]` as far as the selected value goes.  Returns that `or` expression, hung into the tree at e's place (so
+    that short-circuit facts - b is selected only when a was falsy - and control-flow facts are found for its operands)."""
+    if not (isinstance(e, ast.Call) and chain(e.func) == "next" and 1 <= len(e.args) <= 2 and not e.keywords):
+        return None
+    g = strip_cast(e.args[0])
+    seq = None
+    if isinstance(g, ast.Call) and chain(g.func) == "iter" and len(g.args) == 1:
+        g = strip_cast(g.args[0])
+    if isinstance(g, ast.Call) and chain(g.func) == "filter" and len(g.args) == 2 and const_value(g.args[0]) is None:
+        seq = g.args[1]
+    elif isinstance(g, ast.GeneratorExp) and len(g.generators) == 1 and isinstance(g.generators[0].target, ast.Name) and isinstance(g.elt, ast.Name) \
+            and g.elt.id == g.generators[0].target.id and len(g.generators[0].ifs) == 1 and isinstance(g.generators[0].ifs[0], ast.Name) \
+            and g.generators[0].ifs[0].id == g.elt.id and not g.generators[0].is_async:
+        seq = g.generators[0].iter
+    seq = strip_cast(seq) if seq is not None else None
+    if not isinstance(seq, (ast.Tuple, ast.List)) or not seq.elts or any(isinstance(x, ast.Starred) for x in seq.elts):
+        return None
+    alt = ast.BoolOp(op=ast.Or(), values=[_copy(x) for x in [*seq.elts, *e.args[1:]]])
+    ast.copy_location(alt, e)
+    if len(alt.values) < 2:
+        return None
+    set_parents(alt)
+    alt._parent = parent(e)  # type: ignore[attr-defined]
+    return alt
 
 
 def _check_get_bucket(ctx: Ctx) -> None:
@@ -2080,7 +2536,7 @@ def _check_get_bucket(ctx: Ctx) -> None:
     cfg = ctx.cfg(gb)
     rets = [r for r in walk_no_nested(gb.node) if isinstance(r, ast.Return)]
     ok = bool(rets)
-    found_lpv = False
+    found_lpv = unknown = False
     why = ""
 
     def is_lpv(e) -> bool:
@@ -2127,13 +2583,15 @@ def _check_get_bucket(ctx: Ctx) -> None:
                 if lookup_failed(site):
                     continue
                 ok, why = False, "the root bucket is returned although a longer prefix may match"
+            elif any(is_lpv(c) for c in ast.walk(leaf) if isinstance(c, ast.Call)):
+                unknown = True                                            # the longest-prefix lookup wrapped in something this check cannot read
             else:
                 ok, why = False, f"the returned bucket can come from `{norm(leaf)}`"
     has_match = any(isinstance(n, ast.Match) for n in walk_no_nested(gb.node))
-    state = True if ok and found_lpv else (None if has_match or not rets else False)
+    state = True if ok and found_lpv and not unknown else (None if has_match or not rets or (ok and unknown) else False)
     _verdict(ctx, state, "bucket-insert", gb, gb.node, "get_bucket = bucket of the longest matching prefix of the binary id",
              "get_bucket no longer selects by longest prefix" + (f" ({why})" if why else ""),
-             unknown="get_bucket selects its result with a match statement: the case patterns give no conditions")
+             unknown="get_bucket selects its result with a match statement / wraps the longest-prefix lookup in an expression that is not recognised")
 
 
 def _check_bucket_split(ctx: Ctx) -> None:
@@ -2235,6 +2693,8 @@ def _check_bucket_split(ctx: Ctx) -> None:
                 g = strip_cast(strip_cast(v).args[0])
                 if isinstance(g, _COMPS) and len(g.generators) == 1 and children(fr, g.generators[0].iter):
                     return True
+                if isinstance(g, ast.Call) and chain(g.func) == "filter" and len(g.args) == 2 and children(fr, g.args[1]):
+                    return True
         return False
 
     for fr, c in cl.nodes:
@@ -2243,10 +2703,15 @@ def _check_bucket_split(ctx: Ctx) -> None:
         b = fr.ntr(c.func.value, expand=False)
         if b == "self":
             continue
-        if isinstance(strip_cast(c.func.value), ast.Subscript) and fr.parent is None:
+        looked_up = strip_cast(c.func.value)
+        if isinstance(looked_up, ast.Name) and fr.parent is None:
+            d = single_def(sf, looked_up.id)                              # half = table[bit] ... half.add(node)
+            if d is not None and d[1] is None and isinstance(strip_cast(d[0]), ast.Subscript):
+                looked_up = strip_cast(d[0])
+        if isinstance(looked_up, ast.Subscript) and fr.parent is None:
             # dispatch table: the child is looked up by the node's next bit after the parent's prefix; the table maps bit b to the
             # child built with prefix + b, so the chosen child owns every id that continues the parent's prefix with that bit
-            sub = strip_cast(c.func.value)
+            sub = looked_up
             nextbit = f"id_to_binary_string({fr.ntr(c.args[0])}.id)[len(self.prefix_id)]"
             pairs = _dict_pairs(sf, sub.value, 4)
             col = _elems(sf, sub.value)
@@ -2260,7 +2725,7 @@ def _check_bucket_split(ctx: Ctx) -> None:
                 moved += 1
                 ctx.check(True, "split-partition", sf, c, "node moved to the child selected by its next bit (children[bit])")
                 continue
-        if isinstance(strip_cast(c.func.value), ast.Subscript):
+        if isinstance(looked_up, ast.Subscript):
             _und(ctx, "split-partition", fr.fi, c, f"Bucket.split picks the receiving child by a computed index/key (`{norm(c.func.value)}`); ownership of the "
                  "moved node cannot be decided from guards")
             moved += 1
@@ -2269,6 +2734,16 @@ def _check_bucket_split(ctx: Ctx) -> None:
         a0 = fr.ntr(c.args[0])
         fs = cl.facts(fr, c)
         ok = any(_call_fact(f, True, b, "owns", [f"{a0}.id"]) for f in fs)
+        if not ok and fr.parent is None and child_bit(c.func.value) in ("0", "1"):
+            # the child is chosen by the node's next bit after the parent's prefix: every node of the parent continues the
+            # parent's prefix, so the child built with prefix + that bit owns it (same argument as for the bit -> child table)
+            nextbit = f"id_to_binary_string({a0}.id)[len(self.prefix_id)]"
+            bit = child_bit(c.func.value)
+            for f in fs:
+                if f.op == "eq" and f.pos and f.right is not None:
+                    sides = {norm(_expand(sf, f.left)), norm(_expand(sf, f.right))}
+                    if sides == {nextbit, repr(bit)} or sides == {f"int({nextbit})", bit}:
+                        ok = True
         # a missing guard is a finding when the receiver is visibly one of the children; a receiver picked by an expression
         # this check does not understand (next(filter(...)), a lookup) is an unknown
         state = True if ok else (False if known_child(fr, c.func.value) and not _under_match(fr, c) else None)
@@ -2276,17 +2751,36 @@ def _check_bucket_split(ctx: Ctx) -> None:
                  sorted({str(f) for f in fs}), unknown=f"how the receiving child `{b}` is chosen is not recognised: that it owns the moved node is not decided")
     if moved == 0:
         _und(ctx, "split-partition", sf, sf.node, "no <child>.add(node) call is recognisable in Bucket.split: how nodes reach the children is not decided")
-    init = ctx.repo.method("Bucket", "__init__", RT)
+    bcls = ctx.repo.cls("Bucket", RT)
+    init = bcls.lookup("__init__")
+    if init is None or init.cls is not bcls:
+        # no constructor of its own: a dataclass / NamedTuple whose first field is prefix_id keeps the first argument there
+        lay = _class_layout(ctx.repo.module(RT), bcls.node) if not [s for s in bcls.node.body if isinstance(s, _FUNCS) and s.name == "__post_init__"] else None
+        decos = [chain(d.func if isinstance(d, ast.Call) else d) or "" for d in bcls.node.decorator_list]
+        fields_ = [s.target.id for s in bcls.node.body if isinstance(s, ast.AnnAssign) and isinstance(s.target, ast.Name)]
+        generated = any(d.split(".")[-1] == "dataclass" for d in decos) or any((chain(b) or "").split(".")[-1] == "NamedTuple" for b in bcls.node.bases)
+        first = fields_[:1] == ["prefix_id"] and not any(isinstance(s, _FUNCS) and s.name in ("__post_init__", "__new__", "__setattr__") for s in bcls.node.body)
+        _verdict(ctx, True if generated and first else (None if generated or lay is not None else False), "split-partition", bcls.where if hasattr(bcls, "where") else RT, bcls.node,
+                 "a bucket's prefix_id is the prefix it was constructed with (generated constructor, first field)", "Bucket has no constructor that keeps the prefix it is given",
+                 unknown="Bucket has no __init__ of its own and is not a dataclass / NamedTuple whose first field is prefix_id: what its constructor keeps is not decided")
+        return
+    iv = _view(ctx, init)                                                 # (a loop over literal (name, value) pairs is unrolled)
     ok = any(isinstance(t, ast.Attribute) and norm(t) == "self.prefix_id" and v is not None and norm(_expand(init, v)) == init.params()[1]
-             for s in walk_no_nested(init.node) for t, v in _assign_targets(s))
-    ctx.check(ok, "split-partition", init, init.node, "a bucket's prefix_id is the prefix it was constructed with", "Bucket.__init__ does not keep the prefix it is given")
+             for s in walk_no_nested(iv.node) for t, v in _assign_targets(s))
+    ok = ok or any(isinstance(c, ast.Call) and chain(c.func) in ("setattr", "object.__setattr__") and len(c.args) == 3 and norm(c.args[0]) == init.params()[0]
+                   and const_value(c.args[1]) == "prefix_id" and norm(_expand(init, c.args[2])) == init.params()[1] for c in walk_no_nested(iv.node))
+    dynamic = any(isinstance(c, ast.Call) and (chain(c.func) in ("setattr", "object.__setattr__", "vars") or (chain(c.func) or "").endswith("__dict__.update"))
+                  for c in walk_no_nested(iv.node))
+    _verdict(ctx, True if ok else (None if dynamic else False), "split-partition", init, init.node, "a bucket's prefix_id is the prefix it was constructed with",
+             "Bucket.__init__ does not keep the prefix it is given",
+             unknown="Bucket.__init__ sets its attributes dynamically (setattr / __dict__): that prefix_id is the prefix it is given is not decided")
 
 
 def _key_of_bad_entry(ctx: Ctx, fr: _Frame, k: ast.AST, recv: str) -> bool:
     """`for K in [key for key, n in <recv>.nodes.items() if n.status == BAD]`: K is the key of an entry whose node is BAD
     (keys collected first, popped afterwards; the status is not written in between)"""
     f2, k2 = _deep_resolve(fr, k)
-    if not isinstance(k2, ast.Name) or _writes_status(f2.fi):
+    if not isinstance(k2, ast.Name) or _writes_status(f2.fi) or not local_defs(f2.fi, k2.id):
         return False
     for st, _v, _i in local_defs(f2.fi, k2.id):
         if not (isinstance(st, ast.For) and isinstance(st.target, ast.Name)):
@@ -2318,7 +2812,14 @@ def rule_split(ctx: Ctx) -> None:
     node = add.params()[1]
     # the bucket variable(s): receivers of split()
     pre = _Closure(ctx, add, stop=(node,), unroll=True)
-    recvs = {fr.ntr(n.func.value, expand=False) for fr, n in pre.nodes if isinstance(n, ast.Call) and _is_split_call(n)}
+
+    def root_name(fr: _Frame, e: ast.AST) -> str | None:
+        """the anchor's local a helper's parameter is bound to (parameter bindings followed, locals not expanded)"""
+        e = strip_cast(e)
+        while isinstance(e, ast.Name) and fr.parent is not None and e.id in fr.raw_env:
+            e, fr = strip_cast(fr.raw_env[e.id]), fr.parent
+        return e.id if isinstance(e, ast.Name) and fr.parent is None else None
+    recvs = {root_name(fr, n.func.value) or fr.ntr(n.func.value, expand=False) for fr, n in pre.nodes if isinstance(n, ast.Call) and _is_split_call(n)}
     cl = _Closure(ctx, add, stop=(node, *[r for r in recvs if r.isidentifier()]), unroll=True)
     sp = [(fr, n) for fr, n in cl.nodes if isinstance(n, ast.Call) and _is_split_call(n)]
     # match statements (case patterns give no conditions): in add itself, or around a split / trie update / retry in a helper
@@ -2424,7 +2925,44 @@ def rule_split(ctx: Ctx) -> None:
                       f"trie written in {fi.qualname}", "the bucket tree is rewritten outside RoutingTable.add")
     rb = repo.method("RoutingTable", "remove_bad_nodes", RT)
     clr = _Closure(ctx, rb)
-    for fr, c, recv, k in _nodes_removals(clr):
+    # entries leave a node table in Bucket.add (eviction from a full bucket, rule bucket-insert) and in remove_bad_nodes; any
+    # other function of the module that takes entries out (a method remove_bad_nodes delegates to, ...) is held to the same
+    # condition as remove_bad_nodes itself: only BAD nodes
+    badd = repo.method("Bucket", "add", RT)
+    evicting = _Closure(ctx, badd, stop=(badd.params()[1],)).visited
+    removers = [clr]
+    rtm = repo.module(RT)
+    for fi in rtm.all_functions:
+        if any(id(x) in evicting or id(x) in clr.visited for x in [fi.node, *ancestors(fi.node)]):
+            continue
+        if fi.name.startswith("_") and not fi.name.startswith("__") and not any(isinstance(n, ast.Call) and call_name(n) == fi.name for n in ast.walk(rtm.tree)):
+            continue        # a private helper nothing calls: inlined at its call sites by the engine and checked there
+        other = _Closure(ctx, fi, maxdepth=0)
+        if _nodes_removals(other):
+            removers.append(other)
+    # a remover that takes the key as a parameter is decided where it is called (the activation below the caller binds the
+    # parameter); every function of the module that calls one is looked at with its call tree
+    keyed_by_param = {id(x.root.fi.node) for x in removers for fr, c, recv, k in _nodes_removals(x)
+                      if k is not None and isinstance(_deep_resolve(fr, k)[1], ast.Name) and _deep_resolve(fr, k)[1].id in x.root.fi.params()}
+    keyed_by_param |= {i for i in clr.visited if any(id(f.node) == i and f.node is not rb.node and _nodes_removals(_Closure(ctx, f, maxdepth=0)) for f in rtm.all_functions)}
+    names = {f.name for f in rtm.all_functions if id(f.node) in keyed_by_param}
+    for fi in rtm.all_functions:
+        if fi.node is rb.node or any(id(x) in evicting for x in [fi.node, *ancestors(fi.node)]):
+            continue
+        if any(isinstance(n, ast.Call) and call_name(n) in names for n in walk_no_nested(fi.node)):
+            removers.append(_Closure(ctx, fi))
+    seen_removals: set[tuple[int, str]] = set()
+    todo = []
+    for x in removers:
+        for fr, c, recv, k in _nodes_removals(x):
+            in_root = fr.parent is None
+            if in_root and id(x.root.fi.node) in keyed_by_param and any(g is not None and g.module is rtm for _m, g, _c in repo.callers_of_name(x.root.fi.name)):
+                continue                                                  # decided in its callers' call trees
+            key = (id(c), "/".join(f.fi.qualname for f in fr.stack()))
+            if key not in seen_removals:
+                seen_removals.add(key)
+                todo.append((x, fr, c, recv, k))
+    for clr, fr, c, recv, k in todo:
         # guard in the loop body, or the loop runs over a list that was filtered by the guard (collect first, pop afterwards:
         # same nodes, same order; the status is not written in between), or the guard is a predicate helper / generator
         fs = clr.facts(fr, c)
@@ -2442,9 +2980,27 @@ def rule_split(ctx: Ctx) -> None:
                             if isinstance(t, (ast.Tuple, ast.List)) and k2.id in _target_names(t):
                                 cands |= {f2.ntr(ast.Name(id=x, ctx=ast.Load()), expand=False) for x in _target_names(t) - {k2.id}}
         ok = any(_requires_bad(ctx, f, v) for f in fs for v in cands) or (k is not None and _key_of_bad_entry(ctx, fr, k, recv))
-        _verdict(ctx, True if ok else (None if _under_match(fr, c) else False), "bucket-insert", fr.fi, c, "only BAD nodes are removed",
+        # a finding needs a recognised situation: the removed entry comes straight out of a loop over the node table (every entry
+        # is visited, so the missing / wrong status test decides), or a status test of the entry's node is there and admits other
+        # statuses.  A key that reaches the removal through a derived collection this check cannot read is an unknown.
+        tested = any(_status_allowed(ctx, f, v) is not None for f in fs for v in cands)
+        raw = k is None
+        if k is not None:
+            f2, k2 = _deep_resolve(fr, k)
+            base = k2.value if isinstance(k2, ast.Attribute) and k2.attr == "id" else k2
+            if isinstance(base, ast.Name):
+                for st, _v, _i in local_defs(f2.fi, base.id):
+                    it = _strip_snapshot(resolve(f2.fi, _strip_snapshot(st.iter))) if isinstance(st, ast.For) else None
+                    if isinstance(it, ast.Call) and isinstance(it.func, ast.Attribute) and it.func.attr in ("items", "values", "keys") and not it.args:
+                        it = it.func.value
+                    raw = raw or (isinstance(it, ast.Attribute) and it.attr == "nodes")
+            else:
+                raw = True
+        state = True if ok else (None if _under_match(fr, c) or not (tested or raw) else False)
+        _verdict(ctx, state, "bucket-insert", fr.fi, c, "only BAD nodes are removed",
                  "remove_bad_nodes removes nodes that are not BAD", sorted({str(f) for f in fs}),
-                 unknown="the removal is inside a match statement: the case patterns that guard it give no conditions")
+                 unknown="the removed entry is not taken straight from a loop over the node table and no status test of its node is recognisable "
+                         "(derived collection / match statement): that only BAD nodes are removed is not decided")
 
 
 def _empty_collection(e: ast.AST) -> bool:
@@ -2501,9 +3057,43 @@ def _live_state(ctx: Ctx, fi: FuncInfo, e: ast.AST, depth: int = 4) -> bool | No
         return True
     if isinstance(e, ast.Name):
         defs = local_defs(fi, e.id)
-        if not defs or e.id in fi.params() or any(v is None or idx is not None or not isinstance(st, (ast.Assign, ast.AnnAssign)) for st, v, idx in defs):
+        if not defs or e.id in fi.params():
             return None
-        return _combine_all(_live_state(ctx, fi, v, depth - 1) for _st, v, _idx in defs)
+        parts: list[bool | None] = []
+        for st, v, idx in defs:
+            if isinstance(st, ast.AugAssign) and v is None:
+                v = st.value if isinstance(st.target, ast.Name) else None
+            if isinstance(st, (ast.Assign, ast.AnnAssign)) and v is not None and isinstance(idx, int):
+                v = strip_cast(v)                                         # a, b = (x, y): the element bound to the name
+                v = v.elts[idx] if isinstance(v, (ast.Tuple, ast.List)) and idx < len(v.elts) and not any(isinstance(x, ast.Starred) for x in v.elts) else None
+                idx = None
+                if isinstance(v, ast.Name) and v.id == e.id:
+                    continue                                              # ... the name itself: no change
+            if v is None or idx is not None:
+                return None
+            if isinstance(st, (ast.Assign, ast.AnnAssign)) and isinstance(strip_cast(v), ast.Name) and strip_cast(v).id == e.id:
+                continue                                                  # found, n = (found, count): the name itself
+            if isinstance(st, ast.AugAssign):
+                if isinstance(st.op, (ast.BitAnd, ast.Sub)):
+                    continue                                              # can only shrink
+                if not isinstance(st.op, (ast.BitOr, ast.Add)):
+                    return None
+            elif not isinstance(st, (ast.Assign, ast.AnnAssign)):
+                return None
+            parts.append(_live_state(ctx, fi, v, depth - 1))
+        # a local collection that is also filled through its methods: every element that goes in is live
+        for c in walk_no_nested(fi.node):
+            if isinstance(c, ast.Call) and isinstance(c.func, ast.Attribute) and isinstance(c.func.value, ast.Name) and c.func.value.id == e.id and c.func.attr in _MUTATORS:
+                if c.func.attr in ("add", "append") and len(c.args) == 1 and isinstance(c.args[0], ast.Name):
+                    fs = _local_facts(ctx, fi, c)
+                    parts.append(True if any(_excludes_bad(ctx, f, c.args[0].id) for f in fs) else (False if _raw_nodes_source(fi, None, c.args[0].id, c) else None))
+                elif c.func.attr in ("update", "extend") and not c.keywords:
+                    parts.extend(_live_state(ctx, fi, a, depth - 1) for a in c.args)
+                elif c.func.attr in ("discard", "remove", "pop", "clear", "difference_update", "intersection_update", "sort", "reverse"):
+                    continue
+                else:
+                    return None
+        return _combine_all(parts)
     if isinstance(e, ast.BinOp):
         l, r = _live_state(ctx, fi, e.left, depth), _live_state(ctx, fi, e.right, depth)
         if isinstance(e.op, ast.BitOr):
@@ -2535,6 +3125,17 @@ def _live_state(ctx: Ctx, fi: FuncInfo, e: ast.AST, depth: int = 4) -> bool | No
             return True
         return False if src is False or _raw_nodes_source(fi, binding[-1].iter) else None
     if isinstance(e, ast.Call):
+        if chain(e.func) in ("filterfalse", "itertools.filterfalse") and len(e.args) == 2 and not e.keywords:
+            src = _live_state(ctx, fi, e.args[1], depth - 1)
+            if src is True:
+                return True
+            call = ast.Call(func=e.args[0], args=[ast.Name(id="x@filter", ctx=ast.Load())], keywords=[])
+            fs = _implied_by_result(ctx, fi, call, lambda v: None if const_value(v) is NOCONST else not bool(const_value(v)), False, depth)
+            if any(_excludes_bad(ctx, f, "x@filter") for f in fs):
+                return True
+            if _callee(ctx, fi, call)[0] is None:
+                return None
+            return False if src is False or _raw_nodes_source(fi, e.args[1]) else None
         if chain(e.func) == "filter" and len(e.args) == 2 and not e.keywords:
             src = _live_state(ctx, fi, e.args[1], depth - 1)
             if src is True:
@@ -2663,6 +3264,16 @@ def _key_is_distance_first(ctx: Ctx, fi: FuncInfo, key: ast.AST | None, target: 
             return bool(alts) and len(ps) == 1 and all(_dist_first(a, ps[0], target) for a in alts)
         else:
             return False
+    if len(p) == 1 and not _dist_first(body, p[0], target) and isinstance(strip_cast(body), ast.Call):
+        # lambda n: helper(target, n): what the helper returns, its parameters bound to the lambda's arguments
+        inner = strip_cast(body)
+        tgt, binds_self = _callee(ctx, fi, inner)
+        if isinstance(tgt, FuncInfo) and not _is_generator(tgt.node) and not tgt.is_async:
+            env = _bind_args(tgt.node, inner, binds_self)
+            alts = _return_alternatives(tgt)
+            if env is not None and alts:
+                env = {p_: (_expand(fi, x) if not (isinstance(x, ast.Name) and x.id in ("self", p[0], target)) else x) for p_, x in env.items()}
+                return all(_dist_first(_subst(a, env), p[0], target) for a in alts)
     return len(p) == 1 and _dist_first(body, p[0], target)
 
 
@@ -2680,6 +3291,11 @@ def _key_state(ctx: Ctx, fi: FuncInfo, key: ast.AST | None, target: str) -> bool
         return True
     key = strip_cast(key)
     if isinstance(key, ast.Lambda):
+        first = key.body.elts[0] if isinstance(key.body, ast.Tuple) and key.body.elts else key.body
+        first = strip_cast(first)
+        if isinstance(first, ast.Call) and not (chain(first.func) or "").endswith("distance") and _callee(ctx, fi, first)[0] is None \
+                and not (isinstance(first.func, ast.Attribute) and chain(first.func.value) in (key.args.args[0].arg if key.args.args else "",)):
+            return None                                                   # ranks by the result of a function that is not visible here
         return False
     if isinstance(key, ast.Call) and chain(key.func) in ("partial", "functools.partial") and key.args:
         key = strip_cast(key.args[0])
@@ -2724,11 +3340,41 @@ def _ranked_prefix(ctx: Ctx, fi: FuncInfo, cfg, ret: ast.Return, target: str, k:
     order, filtered after the cut); None when the expression is not recognised."""
     def coll_of(src) -> str | None:
         src = _strip_collection_wrap(strip_cast(src)) if src is not None else None
+        for _ in range(4):
+            # a sorted copy holds the same elements: by_x = sorted(coll, key=...) ... sorted(by_x, key=...) ranks coll
+            if isinstance(src, ast.Call) and chain(src.func) == "sorted" and src.args and not isinstance(src.args[0], ast.Starred):
+                src = _strip_collection_wrap(strip_cast(src.args[0]))
+                continue
+            d = single_def(fi, src.id) if isinstance(src, ast.Name) else None
+            v = strip_cast(d[0]) if d is not None and d[1] is None else None
+            if isinstance(v, ast.Call) and chain(v.func) == "sorted" and v.args and not any(
+                    isinstance(c, ast.Call) and isinstance(c.func, ast.Attribute) and norm(c.func.value) == src.id and c.func.attr in _MUTATORS for c in walk_no_nested(fi.node)):
+                src = _strip_collection_wrap(strip_cast(v.args[0]))
+            else:
+                break
         return src.id if isinstance(src, ast.Name) else None              # the collection's own name (not what it was initialised with)
 
     v = resolve(fi, ret.value) if ret.value is not None else None
     if v is None:
         return False, None
+    if isinstance(ret.value, ast.Name) and not getattr(ret, "_c14_cut", False):
+        # ranked = sorted(...); del ranked[k:]; return ranked  ==  return sorted(...)[:k]
+        name = ret.value.id
+        cuts = [d for d in walk_no_nested(fi.node) if isinstance(d, ast.Delete) and len(d.targets) == 1 and isinstance(d.targets[0], ast.Subscript)
+                and isinstance(d.targets[0].value, ast.Name) and d.targets[0].value.id == name and isinstance(d.targets[0].slice, ast.Slice)
+                and d.targets[0].slice.upper is None and d.targets[0].slice.step is None and d.targets[0].slice.lower is not None]
+        if len(cuts) == 1:
+            sl = cuts[0].targets[0].slice
+            synth = ast.Return(value=ast.Subscript(value=ast.Name(id=name, ctx=ast.Load()), slice=ast.Slice(lower=None, upper=sl.lower, step=None), ctx=ast.Load()))
+            ast.copy_location(synth, ret)
+            ast.fix_missing_locations(synth)
+            synth._c14_cut = True  # type: ignore[attr-defined]
+            synth._parent = parent(ret)  # type: ignore[attr-defined]
+            st, c = _ranked_prefix(ctx, fi, cfg, synth, target, k)
+            dn, rn = cfg.nodes_for(cuts[0]), cfg.nodes_for(ret)
+            if st is True and not (dn and rn and all(cfg.must_complete(x, dn) for x in rn)):
+                st = None                                                 # the cut does not run on every path to the return
+            return st, c
     if isinstance(v, ast.Call) and chain(v.func) in ("list", "tuple") and len(v.args) == 1 and not v.keywords:
         inner = resolve(fi, v.args[0])
         if isinstance(inner, ast.Call) and chain(inner.func) in ("islice", "itertools.islice") and len(inner.args) == 2:
@@ -2823,6 +3469,10 @@ def rule_closest(ctx: Ctx) -> None:
         return isinstance(x, ast.Call) and chain(x.func) == "int.from_bytes" and bool(x.args) and isinstance(strip_cast(x.args[0]), ast.Call) \
             and chain(strip_cast(x.args[0]).func) == "bytes"
     state = _tri(bool(alts) and all(xor_metric(x) for x in alts), bool(alts) and all(xor_metric(x) or xor_like(x) for x in alts))
+    if state is None and len(dist.params()) == 2:
+        # not a known spelling: evaluated for sample pairs of 20-byte ids (pure integer / bytes arithmetic only)
+        state = _agrees_on_samples(ctx, dist, lambda x, y: int.from_bytes(x, "big") ^ int.from_bytes(y, "big"),
+                                   [(x, y) for x in _SAMPLE_IDS[:6] for y in _SAMPLE_IDS[3:]])
     _verdict(ctx, state, "closest", dist, dist.node, "distance is XOR of the ids as integers", "distance is no longer the XOR metric",
              unknown="distance() is not written as <int of a> ^ <int of b>: that it is the XOR metric is not decided")
 
@@ -2847,11 +3497,32 @@ def rule_closest(ctx: Ctx) -> None:
         def is_coll(e) -> bool:
             return isinstance(e, ast.Name) and norm(fr.tr(e, expand=False)) == coll
 
+        def sets_of(it: ast.AST) -> bool | None:
+            """every element of the iterable is a collection of live nodes"""
+            it = strip_cast(resolve(fr.fi, strip_cast(it)))
+            if isinstance(it, (ast.GeneratorExp, ast.ListComp)) and not any(g.is_async for g in it.generators):
+                return union_state(it.elt)
+            if isinstance(it, (ast.Tuple, ast.List)) and not any(isinstance(x, ast.Starred) for x in it.elts):
+                return _combine_all(union_state(x) for x in it.elts) if it.elts else True
+            return None
+
         def union_state(v: ast.AST) -> bool | None:
+            v = strip_cast(v)
             if is_coll(v):
                 return True
             if isinstance(v, ast.BinOp) and isinstance(v.op, ast.BitOr):
                 return _combine_all([union_state(v.left), union_state(v.right)])
+            if isinstance(v, ast.Call) and isinstance(v.func, ast.Attribute) and v.func.attr == "union" and not v.keywords:
+                # coll.union(a, *sets): the receiver and every argument
+                return _combine_all([union_state(v.func.value), *[sets_of(a.value) if isinstance(a, ast.Starred) else union_state(a) for a in v.args]])
+            if isinstance(v, ast.Call) and chain(v.func) in ("reduce", "functools.reduce") and 2 <= len(v.args) <= 3 and not v.keywords \
+                    and not any(isinstance(a, ast.Starred) for a in v.args):
+                f = strip_cast(v.args[0])
+                joins = chain(f) in ("operator.or_", "or_", "operator.__or__", "set.union", "frozenset.union", "set.__or__") or (
+                    isinstance(f, ast.Lambda) and len(f.args.args) == 2 and isinstance(f.body, ast.BinOp) and isinstance(f.body.op, ast.BitOr)
+                    and {norm(f.body.left), norm(f.body.right)} == {a.arg for a in f.args.args})
+                if joins:                                                 # reduce(or_, sets[, start]): the union of all of them
+                    return _combine_all([sets_of(v.args[1]), *([union_state(v.args[2])] if len(v.args) == 3 else [])])
             return _live_state(ctx, fr.fi, v)
         if isinstance(n, ast.AugAssign) and is_coll(n.target):
             if isinstance(n.op, (ast.BitAnd, ast.Sub)):
@@ -3027,7 +3698,7 @@ def rule_closest(ctx: Ctx) -> None:
         exits = [b for b in ast.walk(outer) if isinstance(b, ast.Break)]
         exits += [r for r in ast.walk(outer) if isinstance(r, ast.Return) and not any(isinstance(a, (*_FUNCS, ast.Lambda)) for a in _between(r, outer))]
         # a further conjunct of a `while` condition ends the walk when it fails: what its failing says must be the stop criterion
-        for c in (_WHILE_EXTRA.get(id(outer), []) if isinstance(outer, ast.While) else []):
+        for c in _WHILE_EXTRA.get(id(outer), []):
             fs0 = _atoms_with_polarity(c, False)
             fs0 = fs0 + [g for f in fs0 for g in _expand_fact(ctx, wfi, f, c)]
             fs = [Fact(f.op, fr.tr(f.left, ex), fr.tr(f.right, ex) if f.right is not None else None, f.pos, f.atom) for f in fs0 for ex in (True, False)]
@@ -3040,7 +3711,12 @@ def rule_closest(ctx: Ctx) -> None:
             sats = [x for x in (_cmp_sat(f, f"len({coll})", k) for f in fs) if x]
             ok = any(all(L >= K for L, K in x) for x in sats)             # at least max_nodes candidates are held
             in_inner = any(isinstance(a, (ast.For, ast.While)) and a is not outer for a in ancestors(b) if id(a) in within)
-            state = True if ok and not in_inner else (None if not in_inner and (_under_match(fr, b) or not coll_known) else False)
+            # an exit under conditions none of which speaks about the size of the collection (a flag computed elsewhere, a field of
+            # a result object that could not be followed) is an unknown; one that does compare the size - wrongly - or has no
+            # condition at all is a finding
+            own = [f for f in fs if f.atom is not None and any(a is outer for a in ancestors(f.atom))]
+            opaque = bool(own) and not any(f"len({coll})" in str(f) for f in own)
+            state = True if ok and not in_inner else (None if not in_inner and (_under_match(fr, b) or not coll_known or opaque) else False)
             _verdict(ctx, state, "closest", wfi, b, "the walk stops only after a complete level and with >= max_nodes candidates",
                      "the walk can stop with fewer than max_nodes candidates or in the middle of a subtree: the result is not the k closest", sorted({str(f) for f in fs}),
                      unknown="the collection whose size should stop the walk is not recognised / the exit is under a match statement")
@@ -3103,9 +3779,25 @@ def _level_prefixes(ctx: Ctx, fr: _Frame, loop: ast.For, pn: str) -> str | None:
         return None
     fi = fr.fi
     it = _strip_snapshot(resolve(fi, _strip_snapshot(loop.iter)))
+    if isinstance(it, ast.Call) and chain(it.func) in ("takewhile", "itertools.takewhile") and len(it.args) == 2 and not it.keywords:
+        # for P in takewhile(lambda _: C, levels): the levels in order, ended before the first one for which C fails - C is a
+        # further loop condition (checked like an extra conjunct of a `while`)
+        pred = strip_cast(resolve(fi, it.args[0]))
+        if not (isinstance(pred, ast.Lambda) and len(pred.args.args) == 1 and not (pred.args.vararg or pred.args.kwarg or pred.args.kwonlyargs or pred.args.defaults)
+                and not any(isinstance(n, ast.Name) and n.id == pred.args.args[0].arg for n in ast.walk(pred.body))):
+            return None
+        _WHILE_EXTRA[id(loop)] = [pred.body]
+        it = _strip_snapshot(resolve(fi, _strip_snapshot(it.args[1])))
     if isinstance(it, (ast.ListComp, ast.GeneratorExp)) and len(it.generators) == 1 and not it.generators[0].ifs and isinstance(it.generators[0].target, ast.Name):
         g = it.generators[0]
         if _descending_from_len(fi, g.iter, pn) and norm(it.elt) == f"{pn}[:{g.target.id}]":
+            return loop.target.id
+        return None
+    if isinstance(it, ast.Call) and chain(it.func) == "reversed" and len(it.args) == 1 and not it.keywords:
+        # reversed(list(accumulate(prefix, initial=""))): '', p[:1], ..., p reversed = the prefixes of p from the longest to the root
+        acc = _strip_snapshot(resolve(fi, _strip_snapshot(it.args[0])))
+        if isinstance(acc, ast.Call) and chain(acc.func) in ("accumulate", "itertools.accumulate") and len(acc.args) == 1 and isinstance(acc.args[0], ast.Name) and acc.args[0].id == pn \
+                and [k.arg for k in acc.keywords] == ["initial"] and const_value(acc.keywords[0].value) == "":
             return loop.target.id
         return None
     if isinstance(it, ast.Call):
@@ -3209,6 +3901,199 @@ def _random_width_ok(c: ast.Call) -> bool:
     return False
 
 
+class _NotPure(Exception):
+    pass
+
+
+def _pure_eval(e: ast.AST, env: dict, consts: dict, depth: int = 0):
+    """Value of an expression built from integer / bytes / string arithmetic and a few standard-library renderers (format,
+    to_bytes, binascii.unhexlify, struct.pack, precompiled struct.Struct ...) for concrete values of its free names.  Nothing
+    of the analysed repository is run: names are looked up in `env` and in module-level constant EXPRESSIONS (evaluated
+    the same way); any other name, call or syntax raises _NotPure."""
+    import binascii as _ba
+    import struct as _st
+    if depth > 40:
+        raise _NotPure
+    ev = lambda x, env=env: _pure_eval(x, env, consts, depth + 1)  # noqa: E731
+    funcs = {"format": format, "int": int, "bytes": bytes, "bytearray": bytearray, "len": len, "range": range, "reversed": reversed, "tuple": tuple, "list": list,
+             "sum": sum, "divmod": divmod, "hex": hex, "bin": bin, "str": str, "zip": zip, "enumerate": enumerate, "min": min, "max": max, "abs": abs,
+             "binascii.unhexlify": _ba.unhexlify, "binascii.a2b_hex": _ba.a2b_hex, "unhexlify": _ba.unhexlify, "bytes.fromhex": bytes.fromhex,
+             "struct.pack": _st.pack, "struct.Struct": _st.Struct, "Struct": _st.Struct, "pack": _st.pack, "int.to_bytes": int.to_bytes, "int.from_bytes": int.from_bytes,
+             "struct.calcsize": _st.calcsize}
+    methods = {int: {"to_bytes", "bit_length"}, bytes: {"hex", "join", "rjust", "ljust", "zfill"}, str: {"join", "zfill", "rjust", "ljust", "format", "upper", "lower", "encode"},
+               _st.Struct: {"pack"}, bytearray: {"hex"}}
+    import functools as _ft
+    funcs.update({"binascii.hexlify": _ba.hexlify, "hexlify": _ba.hexlify, "binascii.b2a_hex": _ba.b2a_hex, "functools.reduce": _ft.reduce, "reduce": _ft.reduce,
+                  "map": map, "all": all, "any": any, "bool": bool, "ord": ord, "chr": chr})
+    e = strip_cast(e)
+    if isinstance(e, ast.Constant):
+        return e.value
+    if isinstance(e, ast.Lambda):
+        a = e.args
+        if a.vararg or a.kwarg or a.kwonlyargs or a.defaults or a.posonlyargs:
+            raise _NotPure
+        names = [x.arg for x in a.args]
+
+        def fn(*vals, names=names, body=e.body, env=env):
+            if len(vals) != len(names):
+                raise _NotPure
+            return _pure_eval(body, {**env, **dict(zip(names, vals))}, consts, depth + 1)
+        return fn
+    if isinstance(e, ast.Name):
+        if e.id in env:
+            return env[e.id]
+        if e.id in consts:
+            return _pure_eval(consts[e.id], {}, consts, depth + 1)
+        raise _NotPure
+    if isinstance(e, (ast.Tuple, ast.List)):
+        out = []
+        for x in e.elts:
+            out.extend(ev(x.value) if isinstance(x, ast.Starred) else [ev(x)])
+        return tuple(out) if isinstance(e, ast.Tuple) else out
+    try:
+        if isinstance(e, ast.BinOp):
+            import operator as _op
+            ops = {ast.Add: _op.add, ast.Sub: _op.sub, ast.Mult: _op.mul, ast.FloorDiv: _op.floordiv, ast.Mod: _op.mod, ast.LShift: _op.lshift, ast.RShift: _op.rshift,
+                   ast.BitOr: _op.or_, ast.BitAnd: _op.and_, ast.BitXor: _op.xor, ast.Pow: _op.pow}
+            if type(e.op) not in ops:
+                raise _NotPure
+            a, b = ev(e.left), ev(e.right)
+            if isinstance(e.op, (ast.Pow, ast.LShift)) and isinstance(b, int) and b > 4096:
+                raise _NotPure
+            if isinstance(e.op, ast.Mult) and ((isinstance(b, int) and not isinstance(a, int) and b > 4096) or (isinstance(a, int) and not isinstance(b, int) and a > 4096)):
+                raise _NotPure
+            return ops[type(e.op)](a, b)
+        if isinstance(e, ast.UnaryOp):
+            v = ev(e.operand)
+            return {ast.Not: lambda: not v, ast.USub: lambda: -v, ast.Invert: lambda: ~v, ast.UAdd: lambda: +v}[type(e.op)]()
+        if isinstance(e, ast.IfExp):
+            return ev(e.body) if ev(e.test) else ev(e.orelse)
+        if isinstance(e, ast.BoolOp):
+            v = None
+            for x in e.values:
+                v = ev(x)
+                if bool(v) != isinstance(e.op, ast.And):
+                    return v
+            return v
+        if isinstance(e, ast.Compare) and len(e.ops) == 1:
+            a, b = ev(e.left), ev(e.comparators[0])
+            return {ast.Eq: lambda: a == b, ast.NotEq: lambda: a != b, ast.Lt: lambda: a < b, ast.LtE: lambda: a <= b, ast.Gt: lambda: a > b, ast.GtE: lambda: a >= b}[type(e.ops[0])]()
+        if isinstance(e, ast.Subscript):
+            base = ev(e.value)
+            if isinstance(e.slice, ast.Slice):
+                return base[slice(*(ev(x) if x is not None else None for x in (e.slice.lower, e.slice.upper, e.slice.step)))]
+            return base[ev(e.slice)]
+        if isinstance(e, ast.JoinedStr):
+            out = ""
+            for v in e.values:
+                if isinstance(v, ast.FormattedValue):
+                    if v.conversion != -1:
+                        raise _NotPure
+                    out += format(ev(v.value), ev(v.format_spec) if v.format_spec is not None else "")
+                else:
+                    out += ev(v)
+            return out
+        if isinstance(e, (ast.GeneratorExp, ast.ListComp)) and len(e.generators) == 1 and not e.generators[0].is_async:
+            g = e.generators[0]
+            out = []
+            for i, item in enumerate(ev(g.iter)):
+                if i > 4096:
+                    raise _NotPure
+                b = _bind(g.target, ast.Constant(value=None))
+                if b is None:
+                    raise _NotPure
+                names = list(b)
+                vals = [item] if isinstance(g.target, ast.Name) else list(item)
+                if len(names) != len(vals) or not all(isinstance(t, ast.Name) for t in (g.target.elts if isinstance(g.target, (ast.Tuple, ast.List)) else [g.target])):
+                    raise _NotPure
+                env2 = {**env, **dict(zip([t.id for t in (g.target.elts if isinstance(g.target, (ast.Tuple, ast.List)) else [g.target])], vals))}
+                if all(_pure_eval(c, env2, consts, depth + 1) for c in g.ifs):
+                    out.append(_pure_eval(e.elt, env2, consts, depth + 1))
+            return out
+        if isinstance(e, ast.Call):
+            args = []
+            for x in e.args:
+                args.extend(ev(x.value) if isinstance(x, ast.Starred) else [ev(x)])
+            if any(k.arg is None for k in e.keywords):
+                raise _NotPure
+            kw = {k.arg: ev(k.value) for k in e.keywords}
+            c = chain(e.func) if isinstance(e.func, (ast.Name, ast.Attribute)) else None
+            if c in ("range", "bytes", "bytearray", "list", "tuple") and any(isinstance(x, int) and not isinstance(x, bool) and abs(x) > 65536 for x in args):
+                raise _NotPure                                            # (no large allocations while evaluating)
+            if c in funcs and not (isinstance(e.func, ast.Name) and (e.func.id in env or e.func.id in consts)):
+                return funcs[c](*args, **kw)
+            if isinstance(e.func, ast.Attribute):
+                obj = ev(e.func.value)
+                for t, names in methods.items():
+                    if isinstance(obj, t) and not isinstance(obj, bool) and e.func.attr in names:
+                        return getattr(obj, e.func.attr)(*args, **kw)
+            raise _NotPure
+    except _NotPure:
+        raise
+    except RecursionError:
+        raise _NotPure from None
+    except Exception as ex:  # noqa: BLE001 - the expression raises for this value: it is not a rendering of it
+        raise _NotPure from ex
+    raise _NotPure
+
+
+def _agrees_on_samples(ctx: Ctx, fi: FuncInfo, reference, samples: list[tuple]) -> bool | None:
+    """A module function whose body is one returned expression (locals substituted) gives reference(*args) for every sample
+    argument tuple: True; differs (or raises) for one: False; cannot be evaluated: None."""
+    try:
+        rets = _sym_returns(fi)
+    except _Unsupported:
+        return None
+    if len(rets) != 1 or rets[0][1] or _is_generator(fi.node) or fi.is_async:
+        return None
+    expr, params = rets[0][2], fi.params()
+    consts = fi.module.constants
+    try:
+        _pure_eval(expr, dict(zip(params, samples[0])), consts)
+    except _NotPure as ex:
+        if ex.__cause__ is None:
+            return None                                                   # syntax / names the evaluator does not know
+        return False                                                      # evaluable, but raises for a proper 20-byte id
+    try:
+        for args in samples:
+            if _pure_eval(expr, dict(zip(params, args)), consts) != reference(*args):
+                return False
+    except _NotPure:
+        return False
+    return None          # agreement on the witness ids is no proof: the evaluation may refute, never accept
+
+
+_SAMPLE_IDS = [bytes(20), bytes([255] * 20), bytes(range(1, 21)), bytes(range(200, 220)), bytes([0] * 19 + [1]), bytes([128] + [0] * 19), bytes([0] * 8 + [7] + [0] * 11),
+               bytes.fromhex("0123456789abcdef0123456789abcdef01234567"), bytes.fromhex("0123456789abcdef0123456789abcdef012345ff")]
+
+
+def _renders_20_bytes(ctx: Ctx, full: ast.AST) -> bool | None:
+    """The returned expression, with the integer int(<bit string>, 2) it renders replaced by sample values, evaluates to
+    exactly the 20 big-endian bytes of that integer: True; to something else: False; not evaluable: None."""
+    ints = [n for n in ast.walk(full) if isinstance(n, ast.Call) and chain(n.func) == "int" and len(n.args) == 2 and const_value(n.args[1]) == 2]
+    if not ints or len({ast.dump(n) for n in ints}) != 1:
+        return None
+    key = ast.dump(ints[0])
+
+    class T(ast.NodeTransformer):
+        def visit_Call(self, n):
+            if ast.dump(n) == key:
+                return ast.copy_location(ast.Name(id="value@id", ctx=ast.Load()), n)
+            self.generic_visit(n)
+            return n
+    expr = T().visit(_copy(full))
+    consts = ctx.repo.module(RT).constants
+    samples = [0, 1, (1 << 160) - 1, 1 << 159, 0x0123456789ABCDEF0123456789ABCDEF01234567, 0xFF00FF00FF00FF00FF00FF00FF00FF00FF00FF00 >> 3, 255 << 64]
+    try:
+        for v in samples:
+            got = _pure_eval(expr, {"value@id": v}, consts)
+            if not isinstance(got, (bytes, bytearray)) or bytes(got) != v.to_bytes(20, "big"):
+                return False
+    except _NotPure:
+        return None
+    return None          # agreement on the witness integers is no proof: the evaluation may refute, never accept
+
+
 def _twenty_bytes(full: ast.AST) -> bool:
     """the integer is rendered as exactly 20 bytes (40 hex digits / to_bytes(20, 'big'))"""
     for n in ast.walk(full):
@@ -3238,6 +4123,17 @@ def rule_refresh_id(ctx: Ctx) -> None:
         if {id(r) for r, _, _ in values} != {id(r) for r in rets}:
             raise _Unsupported
     except _Unsupported:
+        # substitution of single-assignment locals says what a local WAS assigned, not what it holds after it was modified in
+        # place (parts.append(...), x += ..., x[i] = ...): then the returned value is not known
+        changed = {n.func.value.id for n in walk_no_nested(fi.node) if isinstance(n, ast.Call) and isinstance(n.func, ast.Attribute)
+                   and isinstance(n.func.value, ast.Name) and n.func.attr in _MUTATORS}
+        changed |= {n.target.id for n in walk_no_nested(fi.node) if isinstance(n, ast.AugAssign) and isinstance(n.target, ast.Name)}
+        changed |= {n.value.id for n in walk_no_nested(fi.node) if isinstance(n, ast.Subscript) and isinstance(n.ctx, (ast.Store, ast.Del)) and isinstance(n.value, ast.Name)}
+        changed -= set(fi.params())
+        if changed and any(isinstance(n, ast.Name) and n.id in changed for r in rets if r.value is not None for n in ast.walk(_expand(fi, r.value, tuple(changed)))):
+            _und(ctx, "refresh-id-in-bucket", fi, rets[0], f"the id is assembled in a local that is modified in place ({', '.join(sorted(changed))}) inside loops / "
+                 "try blocks: the returned value cannot be written as one expression over self.prefix_id")
+            return
         values = [(r, (), _expand(fi, r.value)) for r in rets]
 
     def string_builder(x: ast.AST) -> bool:
@@ -3276,7 +4172,7 @@ def rule_refresh_id(ctx: Ctx) -> None:
             def visit_Name(self, n):
                 return self.visit(_copy(binds[n.id])) if isinstance(n.ctx, ast.Load) and n.id in binds else n
         return W().visit(_copy(x))
-    values = [(r, tuple((_K().visit(dewalrus(_copy(t))), pol) for t, pol in conds), _K().visit(dewalrus(_copy(full)))) for r, conds, full in values]
+    values = [(r, tuple((_K().visit(dewalrus(_copy(t))), pol) for t, pol in conds), _concat_joins(_K().visit(dewalrus(_copy(full))))) for r, conds, full in values]
 
     for r in rets:
         alts = [a for rr, conds, full in values if rr is r for a in _alternatives(full, conds)]
@@ -3305,8 +4201,10 @@ def rule_refresh_id(ctx: Ctx) -> None:
                 width = None if width is not False else False             # another random source: its width cannot be read off the call
             elif not ((bool(rnd) and all(_random_width_ok(c) for c in rnd)) or (not rnd and _no_suffix_needed(conds))):
                 width = False
-            if not _twenty_bytes(full) and packed is None:
-                wrong = any(isinstance(n, ast.Call) and chain(n.func) == "format" and len(n.args) == 2 and isinstance(const_value(n.args[1]), str)
+            if not _twenty_bytes(full) and packed is None and _renders_20_bytes(ctx, full) is True:
+                pass                                                      # evaluated for sample integers: exactly their 20 big-endian bytes
+            elif not _twenty_bytes(full) and packed is None:
+                wrong = _renders_20_bytes(ctx, full) is False or any(isinstance(n, ast.Call) and chain(n.func) == "format" and len(n.args) == 2 and isinstance(const_value(n.args[1]), str)
                             and const_value(n.args[1])[-1:] in ("X", "x") for n in ast.walk(full)) or \
                     any(isinstance(n, ast.Call) and isinstance(n.func, ast.Attribute) and n.func.attr == "to_bytes" for n in ast.walk(full))
                 render = False if wrong else (None if render is not False else False)
@@ -3320,6 +4218,100 @@ def rule_refresh_id(ctx: Ctx) -> None:
                      unknown="generate_id draws its random part with a call whose width cannot be read off (not getrandbits / randrange / randint)")
             _verdict(ctx, render, "refresh-id-in-bucket", fi, r, "id rendered as 20 bytes", "the generated id is not 20 bytes",
                      unknown="how the integer is rendered as 20 bytes (format '040X' + unhexlify / to_bytes(20, 'big')) is not recognised")
+
+
+def rule_own_id_fixed(ctx: Ctx) -> None:
+    """`bucket.owns(self.my_node_id)` keeps splits on the path of ONE identifier only if that identifier never changes
+    while the table lives: the tree was split along the old identifier's path, a new identifier opens a second chain of
+    splits.  So my_node_id is written in RoutingTable.__init__ (or a helper only it calls) and nowhere else."""
+    repo = ctx.repo
+    init = repo.method("RoutingTable", "__init__", RT)
+    cl = _Closure(ctx, init)
+    allowed = set(cl.visited)
+
+    def inside(fi) -> bool:
+        return fi is not None and (id(fi.node) in allowed or any(id(a) in allowed for a in ancestors(fi.node)))
+    seen = 0
+    for m, fi, a in repo.attribute_uses("my_node_id"):
+        if not isinstance(a.ctx, (ast.Store, ast.Del)):
+            continue
+        seen += 1
+        ok = inside(fi) and isinstance(a.value, ast.Name) and a.value.id == "self" and fi is not None and fi.cls is not None and fi.cls.name == "RoutingTable"
+        if ok and fi.node is not init.node:
+            ok = all(inside(g) for _m, g, _c in repo.callers_of_name(fi.name))
+        ctx.check(ok, "split-own-path", fi if fi is not None else m.relpath, enclosing_stmt(a), f"my_node_id written in {fi.qualname if fi is not None else m.relpath}",
+                  "the identifier whose path decides which buckets may be split (RoutingTable.my_node_id, tested by bucket.owns(self.my_node_id) in "
+                  "RoutingTable.add) is rewritten after the table was built: buckets split along the old identifier's path stay split, the new "
+                  "identifier allows a second chain of splits - buckets that are not on the path of one own identifier get split")
+    for m, fi, c in repo.callers_of_name("setattr"):
+        if len(c.args) == 3 and const_value(c.args[1]) == "my_node_id" and not inside(fi):
+            ctx.check(False, "split-own-path", fi if fi is not None else m.relpath, c, "my_node_id written through setattr",
+                      "RoutingTable.my_node_id is rewritten after the table was built: splits no longer follow the path of one own identifier")
+    if not seen:
+        ctx.note("no assignment to an attribute my_node_id anywhere: the own identifier cannot change after construction (field / constructor argument)")
+
+
+def rule_refresh_caller(ctx: Ctx) -> None:
+    """An id generated to refresh a bucket lies inside THAT bucket only if generate_id() is called on the bucket (group)
+    the caller is refreshing: the receiver must be current where the call runs.  A loop variable of a loop that does not
+    contain the call still names whatever bucket that other loop visited last - an unrelated bucket."""
+    repo = ctx.repo
+
+    def leaks(fi: FuncInfo, e: ast.AST, site: ast.AST, depth: int, seen: frozenset) -> list[str]:
+        """names in e whose value at `site` can be the left-over target of a `for` loop that does not contain the site"""
+        out: list[str] = []
+        if depth <= 0:
+            return out
+        for n in ast.walk(e):
+            if isinstance(n, (ast.Lambda, *_COMPS, ast.DictComp)):
+                continue
+            if not (isinstance(n, ast.Name) and isinstance(n.ctx, ast.Load)) or (n.id, id(site)) in seen:
+                continue
+            bound_by_comp = any(isinstance(a, (*_COMPS, ast.DictComp)) and any(n.id in _target_names(g.target) for g in a.generators) for a in ancestors(n)) \
+                if parent(n) is not None else False
+            if bound_by_comp:
+                continue
+            if n.id in fi.params():
+                if depth > 1 and fi.name.startswith("_") and not fi.name.startswith("__"):
+                    for _m, g, c in repo.callers_of_name(fi.name):
+                        if g is None or g.node is fi.node:
+                            continue
+                        tgt, bs = _callee(ctx, g, c)
+                        env = _bind_args(fi.node, c, bs) if tgt is fi else None
+                        if env is not None and n.id in env and parent(env[n.id]) is not None:
+                            out.extend(leaks(g, env[n.id], c, depth - 1, seen | {(n.id, id(site))}))
+                continue
+            for st, v, _idx in _reaching(ctx, fi, n.id, site):
+                if isinstance(st, (ast.For, ast.AsyncFor)):
+                    holds = any(a is st for a in ancestors(site)) and not any(x is site for x in ast.walk(st.iter)) and not any(x is site for s2 in st.orelse for x in ast.walk(s2))
+                    if not holds:
+                        # a finished loop of the SAME round of the loop around the call (it ran earlier in this round, over something
+                        # that is itself current): its last element still belongs to what this round works on
+                        around = next((a for a in ancestors(site) if isinstance(a, (ast.For, ast.AsyncFor, ast.While))), None)
+                        if around is not None and any(a is around for a in ancestors(st)) and not any(x is st for s2 in around.orelse for x in ast.walk(s2)):
+                            cfg = ctx.cfg(fi)
+                            heads, sn = cfg.nodes_for(around), cfg.nodes_for(site)
+                            same_round = cfg.reach([x for d in cfg.nodes_for(st) for x, lab in d.succ if lab != "exc"], cut_nodes=heads)
+                            if heads and sn and all(x in same_round for x in sn):
+                                out.extend(leaks(fi, st.iter, st, depth - 1, seen | {(n.id, id(site))}))
+                                continue
+                        out.append(f"`{n.id}` (target of the loop at line {st.lineno})")
+                elif v is not None and isinstance(st, (ast.Assign, ast.AnnAssign)) and parent(v) is not None:
+                    out.extend(leaks(fi, v, st, depth - 1, seen | {(n.id, id(site))}))
+        return out
+
+    found = 0
+    for m, fi, c in repo.callers_of_name("generate_id"):
+        if fi is None or not isinstance(c.func, ast.Attribute) or c.args or c.keywords or m.relpath.startswith("ipv8/test"):
+            continue
+        found += 1
+        bad = leaks(fi, c.func.value, c, 4, frozenset())
+        ctx.check(not bad, "refresh-id-in-bucket", fi, c, f"{fi.qualname}: the bucket that generates the refresh id is current at the call",
+                  f"{fi.qualname} calls generate_id() on {', '.join(dict.fromkeys(bad))}: a loop variable left over from a loop that does not contain the call. "
+                  "It names the bucket that loop visited last, not the bucket (group) being refreshed and stamped here, so the generated id lies in "
+                  "another bucket than the one that is refreshed")
+    if not found:
+        ctx.note("no caller of Bucket.generate_id() outside the tests: nothing refreshes buckets")
 
 
 def rule_trie(ctx: Ctx) -> None:
@@ -3346,11 +4338,919 @@ def rule_trie(ctx: Ctx) -> None:
               "RoutingTable.add replaces by its two halves stays in the tree next to them (buckets no longer prefix-free, closest_nodes sees stale nodes)")
 
 
+# =================================================================================== private normalised view of the DHT modules
+# The engine normalises every module at load time (renamed locals, new helpers, pure aliases, match statements, threaded
+# decisions).  What it leaves in place are spellings that need knowledge of the standard library or of small classes of
+# the module itself.  The passes below rewrite those - on a PRIVATE copy of the two DHT modules' syntax trees, never on
+# the trees other checks share - into the plain syntax the rules reason about.  Every rewrite keeps what the code
+# computes (argument expressions of operator / getter calls are pure reads in every accepted case):
+#   operator.lt(a, b) -> a < b (all comparison / arithmetic / item functions), operator.setitem / delitem statements
+#   methodcaller / attrgetter / itemgetter / partial objects applied to arguments (directly or through a module-level /
+#       single-assignment local alias) -> the method call / attribute / subscript / call they perform; not applied: a lambda
+#   with contextlib.suppress(E): B -> try: B except E: pass
+#   an instance of a small callable class (only __init__ storing fields and __call__ returning one expression) that is
+#       only called / handed to filter, sorted ... -> field locals + a lambda with the body of __call__
+#   a local that only ever holds freshly constructed records (NamedTuple / dataclass / class with a field-storing
+#       __init__ and no other method) and is only read through its fields -> one local per field
+#   members of an Enum class of the module -> distinct string constants, `is` / `is not` on them -> == / !=
+_PRIVATE_MARK = "\n# c14: private normalised view\n"
+_HOF = {"filter", "map", "sorted", "min", "max", "next", "any", "all", "sum", "list", "tuple", "set", "itertools.takewhile", "itertools.dropwhile",
+        "itertools.filterfalse", "itertools.groupby", "itertools.starmap", "heapq.nsmallest", "heapq.nlargest", "functools.reduce"}
+_OP_CMP = {"lt": ast.Lt, "le": ast.LtE, "gt": ast.Gt, "ge": ast.GtE, "eq": ast.Eq, "ne": ast.NotEq, "is_": ast.Is, "is_not": ast.IsNot}
+_OP_BIN = {"add": ast.Add, "sub": ast.Sub, "mul": ast.Mult, "xor": ast.BitXor, "or_": ast.BitOr, "and_": ast.BitAnd, "lshift": ast.LShift, "rshift": ast.RShift,
+           "floordiv": ast.FloorDiv, "mod": ast.Mod, "truediv": ast.Div, "pow": ast.Pow, "concat": ast.Add}
+_OP_UN = {"not_": ast.Not, "neg": ast.USub, "inv": ast.Invert, "invert": ast.Invert, "pos": ast.UAdd}
+_ENUM_BASES = {"enum.Enum", "enum.IntEnum", "enum.StrEnum", "enum.Flag", "enum.IntFlag"}
+
+
+def _qual(m, e: ast.AST) -> str | None:
+    """qualified name of a Name / dotted Attribute through the module's imports: `op.lt` -> 'operator.lt'"""
+    c = chain(e) if isinstance(e, (ast.Name, ast.Attribute)) else None
+    if c is None or "(" in c or "[" in c:
+        return None
+    head, _, rest = c.partition(".")
+    imp = m.imports.get(head)
+    if imp is None:
+        return c
+    mod, attr = imp
+    base = mod if attr is None else f"{mod}.{attr}"
+    return base + ("." + rest if rest else "")
+
+
+def _simple_read(e: ast.AST) -> bool:
+    """an expression that only reads names / attributes / items / constants (no call, no binding)"""
+    return all(isinstance(n, (ast.Name, ast.Attribute, ast.Constant, ast.Subscript, ast.Compare, ast.BoolOp, ast.UnaryOp, ast.BinOp, ast.IfExp, ast.Tuple,
+                              ast.expr_context, ast.cmpop, ast.boolop, ast.unaryop, ast.operator, ast.Slice)) for n in ast.walk(e))
+
+
+def _class_layout(m, cnode: ast.ClassDef):
+    """(constructor `arguments`, binds_self, {field: expression over the constructor's parameters}, __call__ | None) of a
+    record-like class: a NamedTuple / dataclass without own __init__, or a class without bases whose only methods are an
+    __init__ made of `self.f = <expression over the parameters>` statements and (optionally) __call__.  None otherwise."""
+    bases = [_qual(m, b) for b in cnode.bases]
+    decos = [_qual(m, d.func if isinstance(d, ast.Call) else d) for d in cnode.decorator_list]
+    is_nt = any(b in ("typing.NamedTuple", "NamedTuple") for b in bases)
+    is_dc = any(d in ("dataclasses.dataclass", "dataclass") for d in decos)
+    methods = [s for s in cnode.body if isinstance(s, _FUNCS)]
+    if any(s.name not in ("__init__", "__call__") for s in methods) or any(isinstance(s, ast.ClassDef) for s in cnode.body):
+        return None
+    init = next((s for s in methods if s.name == "__init__"), None)
+    call = next((s for s in methods if s.name == "__call__"), None)
+    if call is not None:
+        body = [s for s in call.body if not (isinstance(s, ast.Expr) and isinstance(s.value, ast.Constant))]
+        a = call.args
+        if call.decorator_list or a.vararg or a.kwarg or a.posonlyargs or a.kwonlyargs or not a.args or len(body) != 1 or not isinstance(body[0], ast.Return) \
+                or body[0].value is None or isinstance(call, ast.AsyncFunctionDef) or _is_generator(call):
+            return None
+    if (is_nt or is_dc) and init is None:
+        if (is_nt and len(bases) != 1) or (is_dc and (bases or len(decos) != 1)):
+            return None
+        names, defaults, fields = [], [], {}
+        for s in cnode.body:
+            if isinstance(s, ast.AnnAssign) and isinstance(s.target, ast.Name):
+                if "ClassVar" in norm(s.annotation) or (isinstance(s.value, ast.Call) and (chain(s.value.func) or "").endswith("field")):
+                    return None
+                if s.value is None and defaults:
+                    return None
+                names.append(ast.arg(arg=s.target.id))
+                if s.value is not None:
+                    defaults.append(s.value)
+                fields[s.target.id] = ast.Name(id=s.target.id, ctx=ast.Load())
+            elif isinstance(s, ast.Assign):
+                return None
+        if not fields:
+            return None
+        args = ast.arguments(posonlyargs=[], args=names, vararg=None, kwonlyargs=[], kw_defaults=[], kwarg=None, defaults=defaults)
+        return args, False, fields, call
+    if is_nt or is_dc or cnode.bases or cnode.decorator_list or cnode.keywords or init is None:
+        return None
+    a = init.args
+    if init.decorator_list or a.vararg or a.kwarg or not (a.posonlyargs + a.args):
+        return None
+    me = (a.posonlyargs + a.args)[0].arg
+    params = {x.arg for x in a.posonlyargs + a.args + a.kwonlyargs} - {me}
+    fields = {}
+    for s in init.body:
+        if isinstance(s, ast.Expr) and isinstance(s.value, ast.Constant):
+            continue
+        pairs = _assign_targets(s) if isinstance(s, (ast.Assign, ast.AnnAssign)) else []
+        if len(pairs) != 1:
+            return None
+        t, v = pairs[0]
+        if not (isinstance(t, ast.Attribute) and isinstance(t.value, ast.Name) and t.value.id == me and v is not None and t.attr not in fields):
+            return None
+        if any(isinstance(n, ast.Name) and n.id == me for n in ast.walk(v)) or any(isinstance(n, (ast.NamedExpr, ast.Yield, ast.YieldFrom, ast.Await, ast.Lambda)) for n in ast.walk(v)):
+            return None
+        fields[t.attr] = v
+    if not fields:
+        return None
+    # a parameter that is used more than once (or not at all) must be bound to something that can be read repeatedly
+    return a, True, fields, call
+
+
+def _bind_record(layout, ctor: ast.Call) -> dict[str, ast.AST] | None:
+    """field -> value expression in the vocabulary of the constructor call's site"""
+    args, binds_self, fields, _call = layout
+    fake = ast.FunctionDef(name="__init__", args=args, body=[], decorator_list=[])
+    pos = [x.arg for x in args.posonlyargs + args.args][1 if binds_self else 0:]
+    if len(ctor.args) == 1 and isinstance(ctor.args[0], ast.Starred) and isinstance(ctor.args[0].value, ast.Name) and not ctor.keywords and len(pos) >= 1 \
+            and len(args.defaults) == 0 and not args.kwonlyargs:
+        # Rec(*seq): seq has exactly one element per field (anything else raises), field i is seq[i]
+        seq = ctor.args[0].value
+        ctor = ast.copy_location(ast.Call(func=ctor.func, keywords=[], args=[
+            ast.copy_location(ast.Subscript(value=_copy(seq), slice=ast.Constant(value=i), ctx=ast.Load()), seq) for i in range(len(pos))]), ctor)
+        ast.fix_missing_locations(ctor)
+    env = _bind_args(fake, ctor, binds_self)
+    if env is None:
+        return None
+    if binds_self:
+        env.pop((args.posonlyargs + args.args)[0].arg, None)
+    uses: dict[str, int] = {}
+    for v in fields.values():
+        for n in ast.walk(v):
+            if isinstance(n, ast.Name) and n.id in env:
+                uses[n.id] = uses.get(n.id, 0) + 1
+    for p, x in env.items():
+        if uses.get(p, 0) != 1 and not isinstance(x, (ast.Name, ast.Constant)) and not (isinstance(x, (ast.Attribute, ast.Subscript)) and _simple_read(x)):
+            return None
+    return {f: _subst(v, env) for f, v in fields.items()}
+
+
+def _call_lambda(layout, fieldmap: dict[str, ast.AST], at: ast.AST) -> ast.Lambda | None:
+    """lambda <parameters of __call__>: <its returned expression with self.<field> replaced>"""
+    call = layout[3]
+    me = call.args.args[0].arg
+    params = [x.arg for x in call.args.args[1:]]
+    free = {n.id for v in fieldmap.values() for n in ast.walk(v) if isinstance(n, ast.Name)}
+    ren = {p: (p + "_" if p in free else p) for p in params}
+    body = [s for s in call.body if not (isinstance(s, ast.Expr) and isinstance(s.value, ast.Constant))][0].value
+    bad = [False]
+
+    class T(ast.NodeTransformer):
+        def visit_Attribute(self, n):
+            if isinstance(n.value, ast.Name) and n.value.id == me:
+                if n.attr in fieldmap and isinstance(n.ctx, ast.Load):
+                    return _copy(fieldmap[n.attr])
+                bad[0] = True
+                return n
+            self.generic_visit(n)
+            return n
+
+        def visit_Name(self, n):
+            if n.id == me:
+                bad[0] = True
+            return ast.copy_location(ast.Name(id=ren[n.id], ctx=n.ctx), n) if n.id in ren else n
+
+        def visit_Lambda(self, n):
+            bad[0] = True
+            return n
+    new_body = T().visit(_copy(body))
+    if bad[0]:
+        return None
+    a = ast.arguments(posonlyargs=[], args=[ast.arg(arg=ren[p]) for p in params], vararg=None, kwonlyargs=[], kw_defaults=[], kwarg=None,
+                      defaults=[_copy(d) for d in call.args.defaults])
+    lam = ast.Lambda(args=a, body=new_body)
+    for n in ast.walk(lam):
+        ast.copy_location(n, at)
+    return lam
+
+
+def _blocks(fn):
+    """every statement list below fn (not those of nested functions / classes)"""
+    todo = [fn]
+    while todo:
+        n = todo.pop()
+        for f in ("body", "orelse", "finalbody"):
+            b = getattr(n, f, None)
+            if isinstance(b, list) and b and isinstance(b[0], ast.stmt):
+                yield b
+                todo.extend(s for s in b if not isinstance(s, (*_FUNCS, ast.ClassDef)))
+        for h in getattr(n, "handlers", []) or []:
+            yield h.body
+            todo.extend(s for s in h.body if not isinstance(s, (*_FUNCS, ast.ClassDef)))
+        for c in getattr(n, "cases", []) or []:
+            yield c.body
+            todo.extend(s for s in c.body if not isinstance(s, (*_FUNCS, ast.ClassDef)))
+
+
+def _prep_operator(m) -> int:
+    """operator / functools / contextlib spellings -> plain syntax (in place); returns the number of rewrites"""
+    count = [0]
+    module_alias = {k: v for k, v in m.constants.items() if isinstance(v, ast.Call) and _qual(m, v.func) in
+                    ("operator.methodcaller", "operator.attrgetter", "operator.itemgetter", "functools.partial")}
+
+    def getter_apply(factory: ast.Call, args: list, keywords: list, at: ast.AST):
+        """factory(...)(*args): what the call performs, None if not expressible"""
+        q = _qual(m, factory.func)
+        if any(isinstance(x, ast.Starred) for x in [*factory.args, *args]) or any(k.arg is None for k in [*factory.keywords, *keywords]):
+            return None
+        if q == "functools.partial" and factory.args:
+            return ast.copy_location(ast.Call(func=_copy(factory.args[0]), args=[*map(_copy, factory.args[1:]), *args],
+                                              keywords=[*map(_copy, factory.keywords), *keywords]), at)
+        if len(args) != 1 or keywords:
+            return None
+        obj = args[0]
+        if q == "operator.methodcaller" and factory.args and isinstance(const_value(factory.args[0]), str) and const_value(factory.args[0]).isidentifier():
+            return ast.copy_location(ast.Call(func=ast.Attribute(value=obj, attr=const_value(factory.args[0]), ctx=ast.Load()),
+                                              args=[_copy(x) for x in factory.args[1:]], keywords=[_copy(k) for k in factory.keywords]), at)
+        if q == "operator.attrgetter" and factory.args and not factory.keywords and all(isinstance(const_value(x), str) for x in factory.args):
+            def one(path: str, o: ast.AST):
+                for part in path.split("."):
+                    o = ast.Attribute(value=o, attr=part, ctx=ast.Load())
+                return o
+            if not all(p.isidentifier() for x in factory.args for p in const_value(x).split(".")):
+                return None
+            if len(factory.args) > 1 and not isinstance(obj, ast.Name):
+                return None
+            parts = [one(const_value(x), _copy(obj)) for x in factory.args]
+            return ast.copy_location(parts[0] if len(parts) == 1 else ast.Tuple(elts=parts, ctx=ast.Load()), at)
+        if q == "operator.itemgetter" and factory.args and not factory.keywords:
+            if len(factory.args) > 1 and not isinstance(obj, ast.Name):
+                return None
+            parts = [ast.Subscript(value=_copy(obj), slice=_copy(x), ctx=ast.Load()) for x in factory.args]
+            return ast.copy_location(parts[0] if len(parts) == 1 else ast.Tuple(elts=parts, ctx=ast.Load()), at)
+        return None
+
+    def is_factory(e: ast.AST) -> bool:
+        return isinstance(e, ast.Call) and _qual(m, e.func) in ("operator.methodcaller", "operator.attrgetter", "operator.itemgetter")
+
+    class T(ast.NodeTransformer):
+        def __init__(self):
+            self.local_alias: list[dict[str, ast.Call]] = [{}]
+            self.bound: list[set[str]] = [set()]
+
+        def _function(self, n):
+            bound = _bound_locals(n) | {x.arg for x in n.args.posonlyargs + n.args.args + n.args.kwonlyargs}
+            once: dict[str, ast.Call] = {}
+            for s in walk_no_nested(n):
+                if isinstance(s, ast.Assign) and len(s.targets) == 1 and isinstance(s.targets[0], ast.Name) and isinstance(s.value, ast.Call) \
+                        and _qual(m, s.value.func) in ("operator.methodcaller", "operator.attrgetter", "operator.itemgetter", "functools.partial"):
+                    name = s.targets[0].id
+                    stores_ = [x for x in walk_no_nested(n) if isinstance(x, ast.Name) and x.id == name and isinstance(x.ctx, (ast.Store, ast.Del))]
+                    if len(stores_) == 1 and all(_simple_read(x) for x in [*s.value.args, *[k.value for k in s.value.keywords]]):
+                        once[name] = s.value
+            self.local_alias.append(once)
+            self.bound.append(bound)
+            self.generic_visit(n)
+            self.local_alias.pop()
+            self.bound.pop()
+            return n
+
+        visit_FunctionDef = _function
+        visit_AsyncFunctionDef = _function
+
+        def visit_Call(self, n):
+            self.generic_visit(n)
+            f = n.func
+            factory = None
+            if isinstance(f, ast.Call):
+                factory = f
+            elif isinstance(f, ast.Name):
+                if f.id in self.local_alias[-1]:
+                    factory = self.local_alias[-1][f.id]
+                elif f.id in module_alias and not any(f.id in b for b in self.bound):
+                    factory = module_alias[f.id]
+            if factory is not None:
+                new = getter_apply(factory, n.args, n.keywords, n)
+                if new is not None:
+                    count[0] += 1
+                    return self.visit(new) if isinstance(new, ast.Call) and new.func is not f else new
+                return n
+            q = _qual(m, f) or ""
+            if q.startswith("operator.") and not n.keywords and not any(isinstance(x, ast.Starred) for x in n.args):
+                name = q[len("operator."):]
+                if name.startswith("__") and name.endswith("__"):
+                    name = name[2:-2]
+                    name = name + "_" if name in ("not", "is", "or", "and") else name
+                a = n.args
+                new = None
+                if name in _OP_CMP and len(a) == 2:
+                    new = ast.Compare(left=a[0], ops=[_OP_CMP[name]()], comparators=[a[1]])
+                elif name == "contains" and len(a) == 2:
+                    new = ast.Compare(left=a[1], ops=[ast.In()], comparators=[a[0]])
+                elif name in _OP_BIN and len(a) == 2:
+                    new = ast.BinOp(left=a[0], op=_OP_BIN[name](), right=a[1])
+                elif name in _OP_UN and len(a) == 1:
+                    new = ast.UnaryOp(op=_OP_UN[name](), operand=a[0])
+                elif name == "truth" and len(a) == 1:
+                    new = ast.Call(func=ast.Name(id="bool", ctx=ast.Load()), args=[a[0]], keywords=[])
+                elif name == "getitem" and len(a) == 2:
+                    new = ast.Subscript(value=a[0], slice=a[1], ctx=ast.Load())
+                if new is not None:
+                    count[0] += 1
+                    return ast.copy_location(new, n)
+            return n
+
+        def visit_Expr(self, n):
+            self.generic_visit(n)
+            c = n.value
+            if isinstance(c, ast.Call) and not c.keywords and not any(isinstance(x, ast.Starred) for x in c.args):
+                q = _qual(m, c.func)
+                if q in ("operator.setitem", "operator.__setitem__") and len(c.args) == 3:
+                    count[0] += 1
+                    return ast.copy_location(ast.Assign(targets=[ast.Subscript(value=c.args[0], slice=c.args[1], ctx=ast.Store())], value=c.args[2]), n)
+                if q in ("operator.delitem", "operator.__delitem__") and len(c.args) == 2:
+                    count[0] += 1
+                    return ast.copy_location(ast.Delete(targets=[ast.Subscript(value=c.args[0], slice=c.args[1], ctx=ast.Del())]), n)
+            return n
+
+        def visit_With(self, n):
+            self.generic_visit(n)
+            if n.items and all(isinstance(i.context_expr, ast.Call) and _qual(m, i.context_expr.func) == "contextlib.suppress" and i.optional_vars is None
+                               and i.context_expr.args and not i.context_expr.keywords and not any(isinstance(x, ast.Starred) for x in i.context_expr.args)
+                               for i in n.items):
+                excs = [x for i in n.items for x in i.context_expr.args]
+                typ = excs[0] if len(excs) == 1 else ast.Tuple(elts=excs, ctx=ast.Load())
+                h = ast.ExceptHandler(type=typ, name=None, body=[ast.copy_location(ast.Pass(), n)])
+                count[0] += 1
+                return ast.copy_location(ast.Try(body=n.body, handlers=[ast.copy_location(h, n)], orelse=[], finalbody=[]), n)
+            return n
+
+    T().visit(m.tree)
+
+    # getter objects that are not applied on the spot: the lambda they are
+    class G(ast.NodeTransformer):
+        def visit_Call(self, n):
+            self.generic_visit(n)
+            p = parent_of.get(id(n))
+            applied = isinstance(p, ast.Call) and p.func is n
+            if is_factory(n) and not applied:
+                new = getter_apply(n, [ast.Name(id="o_", ctx=ast.Load())], [], n)
+                if new is not None and all(_simple_read(x) for x in [*n.args, *[k.value for k in n.keywords]]):
+                    count[0] += 1
+                    lam = ast.Lambda(args=ast.arguments(posonlyargs=[], args=[ast.arg(arg="o_")], vararg=None, kwonlyargs=[], kw_defaults=[], kwarg=None, defaults=[]), body=new)
+                    return ast.copy_location(lam, n)
+            return n
+    parent_of = {id(c): p for p in ast.walk(m.tree) for c in ast.iter_child_nodes(p)}
+    G().visit(m.tree)
+
+    # partial(f, a) handed over as a one-argument callback (filter / map over one iterable / key=): lambda x_: f(a, x_);
+    # map(F, xs) over one iterable: (F(x_) for x_ in xs)
+    def one_arg_slot(call: ast.Call, x: ast.AST) -> bool:
+        q = _qual(m, call.func)
+        if any(k.value is x and k.arg == "key" for k in call.keywords):
+            return True
+        if call.args and call.args[0] is x:
+            return q in ("filter", "itertools.takewhile", "itertools.dropwhile", "itertools.filterfalse") or (q == "map" and len(call.args) == 2)
+        return False
+
+    class P(ast.NodeTransformer):
+        def visit_Call(self, n):
+            self.generic_visit(n)
+            for x in [*n.args, *[k.value for k in n.keywords]]:
+                if isinstance(x, ast.Call) and _qual(m, x.func) == "functools.partial" and x.args and one_arg_slot(n, x) \
+                        and all(_simple_read(y) for y in [*x.args[1:], *[k.value for k in x.keywords]]) and not any(isinstance(y, ast.Starred) for y in x.args) \
+                        and all(k.arg is not None for k in x.keywords):
+                    body = ast.Call(func=x.args[0], args=[*x.args[1:], ast.Name(id="x_", ctx=ast.Load())], keywords=list(x.keywords))
+                    lam = ast.Lambda(args=ast.arguments(posonlyargs=[], args=[ast.arg(arg="x_")], vararg=None, kwonlyargs=[], kw_defaults=[], kwarg=None, defaults=[]), body=body)
+                    for y in ast.walk(lam):
+                        if not hasattr(y, "lineno") and isinstance(y, (ast.expr, ast.arg)):
+                            ast.copy_location(y, x)
+                    ast.copy_location(lam, x)
+                    if x in n.args:
+                        n.args[n.args.index(x)] = lam
+                    else:
+                        next(k for k in n.keywords if k.value is x).value = lam
+                    count[0] += 1
+            if _qual(m, n.func) == "map" and len(n.args) == 2 and not n.keywords and not any(isinstance(y, ast.Starred) for y in n.args) \
+                    and isinstance(n.args[0], (ast.Name, ast.Attribute, ast.Lambda)) and (_simple_read(n.args[0]) or isinstance(n.args[0], ast.Lambda)):
+                f = n.args[0]
+                elt = ast.Call(func=f, args=[ast.Name(id="x_", ctx=ast.Load())], keywords=[])
+                if isinstance(f, ast.Lambda) and len(f.args.args) == 1 and not (f.args.vararg or f.args.kwarg or f.args.kwonlyargs or f.args.defaults or f.args.posonlyargs):
+                    elt = _subst(f.body, {f.args.args[0].arg: ast.Name(id="x_", ctx=ast.Load())})
+                gen = ast.GeneratorExp(elt=elt, generators=[ast.comprehension(target=ast.Name(id="x_", ctx=ast.Store()), iter=n.args[1], ifs=[], is_async=0)])
+                for y in ast.walk(gen):
+                    if not hasattr(y, "lineno") and isinstance(y, (ast.expr, ast.arg)):
+                        ast.copy_location(y, n)
+                count[0] += 1
+                return ast.copy_location(gen, n)
+            return n
+    P().visit(m.tree)
+    return count[0]
+
+
+def _prep_enums(m) -> int:
+    """Cls.MEMBER of an Enum class of this module -> a string constant naming the member; is / is not -> == / !="""
+    members: dict[str, dict[str, str]] = {}
+    for c in ast.walk(m.tree):
+        if isinstance(c, ast.ClassDef) and any(_qual(m, b) in _ENUM_BASES for b in c.bases):
+            seen: dict = {}
+            mem = {}
+            for s in c.body:
+                for t, v in (_assign_targets(s) if isinstance(s, (ast.Assign, ast.AnnAssign)) else []):
+                    if isinstance(t, ast.Name) and not t.id.startswith("_") and v is not None:
+                        cv = const_value(v)
+                        key = ("v", repr(cv)) if cv is not NOCONST else ("n", t.id)      # equal values are aliases of one member
+                        mem[t.id] = seen.setdefault(key, f"<{c.name}.{t.id}>")
+            if mem:
+                members[c.name] = mem
+    if not members:
+        return 0
+    count = [0]
+    made: set[int] = set()
+
+    class T(ast.NodeTransformer):
+        def __init__(self):
+            self.inside: list[str] = []
+
+        def visit_ClassDef(self, n):
+            self.inside.append(n.name)
+            self.generic_visit(n)
+            self.inside.pop()
+            return n
+
+        def visit_Attribute(self, n):
+            if isinstance(n.value, ast.Name) and n.value.id in members and n.attr in members[n.value.id] and isinstance(n.ctx, ast.Load) \
+                    and n.value.id not in self.inside:
+                count[0] += 1
+                new = ast.copy_location(ast.Constant(value=members[n.value.id][n.attr]), n)
+                made.add(id(new))
+                return new
+            self.generic_visit(n)
+            return n
+
+        def visit_Compare(self, n):
+            self.generic_visit(n)
+            sides = [n.left, *n.comparators]
+            for i, op in enumerate(n.ops):
+                if isinstance(op, (ast.Is, ast.IsNot)) and (id(sides[i]) in made or id(sides[i + 1]) in made):
+                    n.ops[i] = ast.Eq() if isinstance(op, ast.Is) else ast.NotEq()
+            return n
+    T().visit(m.tree)
+    return count[0]
+
+
+def _prep_records(m) -> int:
+    """callable-class instances -> lambdas, record locals -> one local per field (in place)"""
+    layouts = {}
+    for c in m.tree.body:
+        if isinstance(c, ast.ClassDef):
+            lay = _class_layout(m, c)
+            if lay is not None:
+                layouts[c.name] = lay
+    if not layouts:
+        return 0
+    count = 0
+
+    def ctor_of(e: ast.AST, bound: set[str]):
+        return layouts.get(e.func.id) if isinstance(e, ast.Call) and isinstance(e.func, ast.Name) and e.func.id in layouts and e.func.id not in bound else None
+
+    for fn in [n for n in ast.walk(m.tree) if isinstance(n, _FUNCS)]:
+        bound = _bound_locals(fn) | {x.arg for x in fn.args.posonlyargs + fn.args.args + fn.args.kwonlyargs}
+        par = {id(c): p for p in ast.walk(fn) for c in ast.iter_child_nodes(p)}
+        names = sorted({n.id for n in walk_no_nested(fn) if isinstance(n, ast.Name) and isinstance(n.ctx, ast.Store)})
+        for v in names:
+            occ = [n for n in ast.walk(fn) if isinstance(n, ast.Name) and n.id == v]
+            stores_ = [n for n in occ if not isinstance(n.ctx, ast.Load)]
+            loads = [n for n in occ if isinstance(n.ctx, ast.Load)]
+            defs = []
+            for s in stores_:
+                st = par.get(id(s))
+                ok = (isinstance(st, ast.Assign) and len(st.targets) == 1 and st.targets[0] is s) or (isinstance(st, ast.AnnAssign) and st.target is s and st.value is not None)
+                lay = ctor_of(st.value, bound) if ok else None
+                fm = _bind_record(lay, st.value) if lay is not None else None
+                if fm is None:
+                    defs = None
+                    break
+                defs.append((st, lay, fm))
+            if not defs or any(any(isinstance(a, (*_FUNCS,)) and a is not fn for a in _chain_up(par, s)) for s in occ):
+                continue
+            fields = set.intersection(*[set(fm) for _st, _lay, fm in defs])
+            ctor_names = {st.value.func.id for st, _lay, _fm in defs}
+
+            def type_test(n) -> bool:
+                """isinstance(v, Cls) with Cls the one class every assignment of v constructs: always true"""
+                c = par.get(id(n))
+                return isinstance(c, ast.Call) and isinstance(c.func, ast.Name) and c.func.id == "isinstance" and len(c.args) == 2 and c.args[0] is n \
+                    and not c.keywords and isinstance(c.args[1], ast.Name) and ctor_names == {c.args[1].id}
+            tests = [n for n in loads if type_test(n)]
+            loads = [n for n in loads if not type_test(n)]
+            as_field = all(isinstance(par.get(id(n)), ast.Attribute) and par[id(n)].value is n and par[id(n)].attr in fields and isinstance(par[id(n)].ctx, ast.Load) for n in loads)
+
+            def callable_use(n) -> bool:
+                p = par.get(id(n))
+                if isinstance(p, ast.keyword):
+                    p = par.get(id(p))
+                    return isinstance(p, ast.Call)
+                if isinstance(p, ast.Call):
+                    return p.func is n or (n in p.args and (_qual(m, p.func) in _HOF or (isinstance(p.func, ast.Attribute) and p.func.attr == "sort")))
+                return False
+            as_callable = len(defs) == 1 and defs[0][1][3] is not None and loads and all(callable_use(n) for n in loads)
+            if not loads or not (as_field or as_callable) or (tests and not as_field):
+                continue
+            for n in tests:
+                c = par[id(n)]
+                gp = par.get(id(c))
+                repl = ast.copy_location(ast.Constant(value=True), c)
+                for fname, val in ast.iter_fields(gp):
+                    if val is c:
+                        setattr(gp, fname, repl)
+                    elif isinstance(val, list) and c in val:
+                        val[val.index(c)] = repl
+            for st, lay, fm in defs:
+                new = []
+                order = [f for f in fm]
+                for f in order:
+                    a = ast.Assign(targets=[ast.Name(id=f"{v}__{f}", ctx=ast.Store())], value=fm[f])
+                    new.append(a)
+                if as_callable:
+                    lam = _call_lambda(lay, {f: ast.Name(id=f"{v}__{f}", ctx=ast.Load()) for f in fm}, st)
+                    if lam is None:
+                        new = None
+                    else:
+                        new.append(ast.Assign(targets=[ast.Name(id=v, ctx=ast.Store())], value=lam))
+                if new is None:
+                    continue
+                for a in new:
+                    for x in ast.walk(a):
+                        if not hasattr(x, "lineno"):
+                            ast.copy_location(x, st)
+                    ast.copy_location(a, st)
+                for b in _blocks(fn):
+                    if st in b:
+                        i = b.index(st)
+                        b[i:i + 1] = new
+                        count += 1
+            if as_field:
+                for n in loads:
+                    a = par[id(n)]
+                    gp = par.get(id(a))
+                    repl = ast.copy_location(ast.Name(id=f"{v}__{a.attr}", ctx=ast.Load()), a)
+                    for fname, val in ast.iter_fields(gp):
+                        if val is a:
+                            setattr(gp, fname, repl)
+                        elif isinstance(val, list) and a in val:
+                            val[val.index(a)] = repl
+        # Cls(a, b).field read on the spot: the value the field was given (the other arguments are plain reads)
+        par = {id(c): p for p in ast.walk(fn) for c in ast.iter_child_nodes(p)}
+        for a in [n for n in ast.walk(fn) if isinstance(n, ast.Attribute) and isinstance(n.ctx, ast.Load) and isinstance(n.value, ast.Call)]:
+            lay = ctor_of(a.value, bound)
+            fm = _bind_record(lay, a.value) if lay is not None else None
+            if fm is None or a.attr not in fm or not all(_simple_read(x) for f_, x in fm.items() if f_ != a.attr):
+                continue
+            holder = par.get(id(a))
+            repl = fm[a.attr]
+            for y in ast.walk(repl):
+                if isinstance(y, ast.expr) and not hasattr(y, "lineno"):
+                    ast.copy_location(y, a)
+            for fname, val in ast.iter_fields(holder):
+                if val is a:
+                    setattr(holder, fname, repl)
+                elif isinstance(val, list) and a in val:
+                    val[val.index(a)] = repl
+            count += 1
+        # constructor calls of callable classes used on the spot: Cls(a)(x), filter(Cls(a), xs), key=Cls(a)
+        par = {id(c): p for p in ast.walk(fn) for c in ast.iter_child_nodes(p)}
+        for c in [n for n in ast.walk(fn) if isinstance(n, ast.Call)]:
+            lay = ctor_of(c, bound)
+            if lay is None or lay[3] is None:
+                continue
+            p = par.get(id(c))
+            if isinstance(p, ast.keyword):
+                holder, ok = p, isinstance(par.get(id(p)), ast.Call)
+            else:
+                holder = p
+                ok = isinstance(p, ast.Call) and (p.func is c or (c in p.args and (_qual(m, p.func) in _HOF or (isinstance(p.func, ast.Attribute) and p.func.attr == "sort"))))
+            fm = _bind_record(lay, c) if ok else None
+            if fm is None or not all(_simple_read(x) for x in fm.values()):
+                continue
+            lam = _call_lambda(lay, fm, c)
+            if lam is None:
+                continue
+            for fname, val in ast.iter_fields(holder):
+                if val is c:
+                    setattr(holder, fname, lam)
+                elif isinstance(val, list) and c in val:
+                    val[val.index(c)] = lam
+            count += 1
+    return count
+
+
+def _boolean_valued(m, fn, e: ast.AST, depth: int = 3) -> bool:
+    """the expression can only be True or False: comparison, not, and/or of such, bool(...) and friends, a call of a
+    function / method of this module that is declared `-> bool`"""
+    e = strip_cast(e)
+    if depth <= 0:
+        return False
+    if isinstance(e, ast.Constant):
+        return isinstance(e.value, bool)
+    if isinstance(e, ast.Compare) or (isinstance(e, ast.UnaryOp) and isinstance(e.op, ast.Not)):
+        return True
+    if isinstance(e, ast.BoolOp):
+        return all(_boolean_valued(m, fn, v, depth - 1) for v in e.values)
+    if isinstance(e, ast.IfExp):
+        return _boolean_valued(m, fn, e.body, depth - 1) and _boolean_valued(m, fn, e.orelse, depth - 1)
+    if isinstance(e, ast.Call):
+        if isinstance(e.func, ast.Name) and e.func.id in ("bool", "isinstance", "issubclass", "callable", "all", "any", "hasattr"):
+            return True
+        fi = getattr(fn, "_info", None)
+        t = None
+        if isinstance(e.func, ast.Name):
+            t = m.functions.get(e.func.id)
+        elif isinstance(e.func, ast.Attribute):
+            owners = [c for c in m.classes.values() if e.func.attr in c.methods]
+            recv = e.func.value
+            if isinstance(recv, ast.Name) and recv.id in ("self", "cls") and fi is not None and fi.cls is not None:
+                t = fi.cls.lookup(e.func.attr)
+            elif len(owners) == 1:
+                t = owners[0].methods[e.func.attr]
+            elif fi is not None and _expr_class(fi, recv) in m.classes:
+                t = m.classes[_expr_class(fi, recv)].lookup(e.func.attr)
+            elif owners and all(c.methods[e.func.attr].node.returns is not None and norm(c.methods[e.func.attr].node.returns).strip("'\"") == "bool" for c in owners):
+                t = owners[0].methods[e.func.attr]
+        return t is not None and t.node.returns is not None and norm(t.node.returns).strip("'\"") == "bool"
+    return False
+
+
+def _prep_booltests(m) -> int:
+    """`x is True` / `x is False` (and `==`) where x is boolean-valued by construction (or a local that is only ever
+    assigned such values) -> `x` / `not x`; constant True / False operands of and / or folded away"""
+    count = [0]
+    for fn in [n for n in ast.walk(m.tree) if isinstance(n, _FUNCS)]:
+        params = {x.arg for x in fn.args.posonlyargs + fn.args.args + fn.args.kwonlyargs}
+        values: dict[str, list] = {}
+        for st in walk_no_nested(fn):
+            for t, v in (_assign_targets(st) if isinstance(st, (ast.Assign, ast.AnnAssign, ast.AugAssign)) else []):
+                if isinstance(t, ast.Name):
+                    values.setdefault(t.id, []).append(v)
+        other_bind = {n.id for n in walk_no_nested(fn) if isinstance(n, ast.Name) and isinstance(n.ctx, (ast.Store, ast.Del))
+                      and not isinstance(getattr(n, "_parent", None), (ast.Assign, ast.AnnAssign))}
+        boolean = {k for k, vs in values.items() if k not in params and k not in other_bind and all(v is not None and _boolean_valued(m, fn, v) for v in vs)}
+
+        def is_bool(e) -> bool:
+            return (isinstance(e, ast.Name) and e.id in boolean) or _boolean_valued(m, fn, e)
+
+        class T(ast.NodeTransformer):
+            def visit_FunctionDef(self, n):
+                return n if n is not fn else self.generic_visit(n)
+            visit_AsyncFunctionDef = visit_FunctionDef
+
+            def visit_Compare(self, n):
+                self.generic_visit(n)
+                if len(n.ops) == 1 and isinstance(n.ops[0], (ast.Is, ast.IsNot, ast.Eq, ast.NotEq)):
+                    for a, b in ((n.left, n.comparators[0]), (n.comparators[0], n.left)):
+                        if isinstance(b, ast.Constant) and isinstance(b.value, bool) and is_bool(a) and not isinstance(a, ast.Constant):
+                            want = b.value if isinstance(n.ops[0], (ast.Is, ast.Eq)) else not b.value
+                            count[0] += 1
+                            return a if want else ast.copy_location(ast.UnaryOp(op=ast.Not(), operand=a), n)
+                return n
+
+            def visit_BoolOp(self, n):
+                self.generic_visit(n)
+                neutral = isinstance(n.op, ast.And)
+                if any(isinstance(v, ast.Constant) and isinstance(v.value, bool) for v in n.values):
+                    vals = []
+                    for v in n.values:
+                        if isinstance(v, ast.Constant) and isinstance(v.value, bool):
+                            if v.value is neutral:
+                                continue
+                            vals.append(v)
+                            break                                         # the absorbing constant ends the evaluation
+                        vals.append(v)
+                    if all(is_bool(v) for v in vals):                     # (a and True) is a only for boolean a
+                        count[0] += 1
+                        if not vals:
+                            return ast.copy_location(ast.Constant(value=neutral), n)
+                        if len(vals) == 1:
+                            return vals[0]
+                        n.values = vals
+                return n
+        T().visit(fn)
+    return count[0]
+
+
+def _prep_match(m) -> int:
+    """match statements over a tuple / record of freshly computed parts (or any subject) with sequence, class, value,
+    singleton, capture, wildcard and or-patterns -> the parts bound to locals once, then an if / elif chain.  A boolean part
+    tested against True / False becomes a plain truth test; what earlier cases' failing says about a part is used to drop
+    settled conjuncts from later cases (the chain is evaluated top-down, exactly like the cases)."""
+    layouts = {c.name: _class_layout(m, c) for c in m.tree.body if isinstance(c, ast.ClassDef)}
+    layouts = {k: v for k, v in layouts.items() if v is not None}
+    count = 0
+
+    class Unsupported(Exception):
+        pass
+
+    for fn in [n for n in ast.walk(m.tree) if isinstance(n, _FUNCS)]:
+        bound = _bound_locals(fn) | {x.arg for x in fn.args.posonlyargs + fn.args.args + fn.args.kwonlyargs}
+        for block in list(_blocks(fn)):
+            for st in [x for x in block if isinstance(x, ast.Match)]:
+                base = f"m{st.lineno}"
+                if any(b.startswith(base + "_") for b in bound):
+                    continue
+                pre: list[ast.stmt] = []
+                boolean: set[str] = set()
+
+                def temp(i, value, st=st, pre=pre, base=base, boolean=boolean, fn=fn):
+                    name = f"{base}_{i}"
+                    a = ast.Assign(targets=[ast.Name(id=name, ctx=ast.Store())], value=value)
+                    pre.append(a)
+                    if _boolean_valued(m, fn, value):
+                        boolean.add(name)
+                    return ast.Name(id=name, ctx=ast.Load())
+                subj = strip_cast(st.subject)
+                parts = fieldparts = whole = None
+                lay = layouts.get(subj.func.id) if isinstance(subj, ast.Call) and isinstance(subj.func, ast.Name) and subj.func.id not in bound else None
+                fm = _bind_record(lay, subj) if lay is not None else None
+                if isinstance(subj, (ast.Tuple, ast.List)) and not any(isinstance(x, ast.Starred) for x in subj.elts):
+                    parts = [temp(i, x) for i, x in enumerate(subj.elts)]
+                elif fm is not None:
+                    fieldparts = {f: temp(i, v) for i, (f, v) in enumerate(fm.items())}
+                else:
+                    whole = subj if isinstance(subj, ast.Name) else temp(0, subj)
+
+                def test_of(part: ast.AST, value: ast.AST, op) -> ast.AST:
+                    if isinstance(part, ast.Name) and part.id in boolean and isinstance(value, ast.Constant) and isinstance(value.value, bool):
+                        return _copy(part) if value.value else ast.UnaryOp(op=ast.Not(), operand=_copy(part))
+                    return ast.Compare(left=_copy(part), ops=[op], comparators=[_copy(value)])
+
+                def pat(p, part, seq=None, rec=None):
+                    """(list of conjunct expressions, list of (name, expression) bindings)"""
+                    if isinstance(p, ast.MatchValue):
+                        return [test_of(part, p.value, ast.Eq())], []
+                    if isinstance(p, ast.MatchSingleton):
+                        return [test_of(part, ast.Constant(value=p.value), ast.Is())], []
+                    if isinstance(p, ast.MatchAs):
+                        if p.pattern is None:
+                            return [], ([(p.name, _copy(part))] if p.name else [])
+                        c, b = pat(p.pattern, part, seq, rec)
+                        return c, b + ([(p.name, _copy(part))] if p.name else [])
+                    if isinstance(p, ast.MatchOr):
+                        alts = [pat(x, part, seq, rec) for x in p.patterns]
+                        if any(b for _c, b in alts):
+                            raise Unsupported
+                        if any(not c for c, _b in alts):
+                            return [], []
+                        return [ast.BoolOp(op=ast.Or(), values=[c[0] if len(c) == 1 else ast.BoolOp(op=ast.And(), values=c) for c, _b in alts])], []
+                    if isinstance(p, ast.MatchSequence):
+                        if any(isinstance(x, ast.MatchStar) for x in p.patterns):
+                            raise Unsupported
+                        if seq is not None:
+                            if len(seq) != len(p.patterns):
+                                return [ast.Constant(value=False)], []
+                            elems = seq
+                            conj, binds = [], []
+                        else:
+                            elems = [ast.Subscript(value=_copy(part), slice=ast.Constant(value=i), ctx=ast.Load()) for i in range(len(p.patterns))]
+                            conj = [ast.Call(func=ast.Name(id="isinstance", ctx=ast.Load()), args=[_copy(part), ast.Tuple(elts=[ast.Name(id="tuple", ctx=ast.Load()), ast.Name(id="list", ctx=ast.Load())], ctx=ast.Load())], keywords=[]),
+                                    ast.Compare(left=ast.Call(func=ast.Name(id="len", ctx=ast.Load()), args=[_copy(part)], keywords=[]), ops=[ast.Eq()], comparators=[ast.Constant(value=len(p.patterns))])]
+                            binds = []
+                        for x, el in zip(p.patterns, elems):
+                            c, b = pat(x, el)
+                            conj += c
+                            binds += b
+                        return conj, binds
+                    if isinstance(p, ast.MatchClass) and isinstance(p.cls, ast.Name):
+                        lay2 = layouts.get(p.cls.id)
+                        order = [a.arg for a in (lay2[0].posonlyargs + lay2[0].args)][1 if lay2[1] else 0:] if lay2 is not None else None
+                        if p.patterns and (order is None or len(p.patterns) > len(order)):
+                            raise Unsupported
+                        attrs = [*(order[:len(p.patterns)] if p.patterns else []), *p.kwd_attrs]
+                        subs = [*p.patterns, *p.kwd_patterns]
+                        if rec is not None and isinstance(subj, ast.Call) and subj.func.id == p.cls.id:
+                            conj, binds = [], []
+                            get = lambda a: rec.get(a)  # noqa: E731
+                        else:
+                            conj = [ast.Call(func=ast.Name(id="isinstance", ctx=ast.Load()), args=[_copy(part), ast.Name(id=p.cls.id, ctx=ast.Load())], keywords=[])]
+                            binds = []
+                            get = lambda a: ast.Attribute(value=_copy(part), attr=a, ctx=ast.Load())  # noqa: E731
+                        for a, x in zip(attrs, subs):
+                            el = get(a)
+                            if el is None:
+                                raise Unsupported
+                            c, b = pat(x, el)
+                            conj += c
+                            binds += b
+                        return conj, binds
+                    raise Unsupported
+                try:
+                    cases = []
+                    for cs in st.cases:
+                        top = whole if whole is not None else ast.Name(id=base, ctx=ast.Load())
+                        conj, binds = pat(cs.pattern, top, parts, fieldparts)
+                        if parts is not None and not isinstance(cs.pattern, (ast.MatchSequence, ast.MatchAs, ast.MatchOr)):
+                            raise Unsupported
+                        if fieldparts is not None and not isinstance(cs.pattern, (ast.MatchClass, ast.MatchAs)):
+                            raise Unsupported
+                        if (parts is not None or fieldparts is not None) and any(isinstance(n, ast.Name) and n.id == base for c in conj for n in ast.walk(c)):
+                            raise Unsupported
+                        if (parts is not None or fieldparts is not None) and any(isinstance(n, ast.Name) and n.id == base for _n, b in binds for n in ast.walk(b)):
+                            raise Unsupported
+                        if cs.guard is not None:
+                            if binds:
+                                raise Unsupported
+                            conj = conj + [cs.guard]
+                        cases.append((conj, binds, cs.body))
+                except Unsupported:
+                    continue
+                # what the failing of the earlier cases says about boolean parts settles conjuncts of the later ones
+                known: dict[str, bool] = {}
+
+                def lit(c):
+                    if isinstance(c, ast.Name) and c.id in boolean:
+                        return c.id, True
+                    if isinstance(c, ast.UnaryOp) and isinstance(c.op, ast.Not) and isinstance(c.operand, ast.Name) and c.operand.id in boolean:
+                        return c.operand.id, False
+                    return None
+                chain_: list[tuple[list, list, list]] = []
+                for conj, binds, body in cases:
+                    kept, dead = [], False
+                    for c in conj:
+                        l = lit(c)
+                        if l is not None and l[0] in known:
+                            if known[l[0]] != l[1]:
+                                dead = True
+                            continue
+                        if isinstance(c, ast.Constant) and c.value is False:
+                            dead = True
+                        kept.append(c)
+                    if dead:
+                        continue
+                    chain_.append((kept, binds, body))
+                    if not kept:
+                        break                                             # an irrefutable case: nothing after it is reached
+                    if len(kept) == 1 and lit(kept[0]) is not None:
+                        known[lit(kept[0])[0]] = not lit(kept[0])[1]
+                if not chain_:
+                    new_stmts: list[ast.stmt] = list(pre)
+                else:
+                    node = None
+                    for kept, binds, body in reversed(chain_):
+                        body2 = [ast.Assign(targets=[ast.Name(id=n_, ctx=ast.Store())], value=v) for n_, v in binds] + list(body)
+                        if not kept:
+                            node = body2                                  # else branch
+                            continue
+                        test = kept[0] if len(kept) == 1 else ast.BoolOp(op=ast.And(), values=kept)
+                        node = [ast.If(test=test, body=body2, orelse=node if isinstance(node, list) else ([] if node is None else [node]))]
+                    new_stmts = list(pre) + (node if isinstance(node, list) else [node])
+                for x in new_stmts:
+                    for y in ast.walk(x):
+                        if isinstance(y, (ast.expr, ast.stmt)) and not hasattr(y, "lineno"):
+                            ast.copy_location(y, st)
+                i = block.index(st)
+                block[i:i + 1] = new_stmts
+                count += 1
+    return count
+
+
+def _chain_up(par: dict, n: ast.AST):
+    n = par.get(id(n))
+    while n is not None:
+        yield n
+        n = par.get(id(n))
+
+
+def _prep_triggers(m) -> bool:
+    mods = {mod.split(".")[0] for mod, _a in m.imports.values()}
+    if mods & {"operator", "functools", "contextlib", "enum", "dataclasses"} or any(a == "NamedTuple" for _m, a in m.imports.values()):
+        return True
+    if any(isinstance(c, ast.ClassDef) and _class_layout(m, c) is not None for c in m.tree.body):
+        return True
+    if any(isinstance(c, ast.Match) for c in ast.walk(m.tree)):
+        return True
+    return any(isinstance(c, ast.Call) and isinstance(c.func, ast.Name) and c.func.id == "map" and len(c.args) == 2 for c in ast.walk(m.tree))
+
+
+def _private_view(ctx: Ctx) -> None:
+    """Replace ctx.repo by a private copy in which the DHT modules are rewritten by the passes above - only when one of
+    the modules uses a spelling the passes know; the unchanged tree is analysed as loaded."""
+    repo = ctx.repo
+    rels = [r for r in (RT, TRIE) if r in repo.by_relpath and _prep_triggers(repo.by_relpath[r])]
+    if not rels or getattr(repo, "_c14_private", False):
+        return
+    from ..model import Repo
+    ov = dict(repo.overrides)
+    for r in rels:
+        ov[r] = repo.by_relpath[r].src + _PRIVATE_MARK
+    try:
+        priv = Repo(repo.root, overrides=ov, include_tests=any(r.startswith("ipv8/test/") for r in repo.by_relpath), extra_dirs=repo.extra_dirs)
+        for r in rels:
+            m = priv.by_relpath[r]
+            for _round in range(3):
+                n = _prep_operator(m) + _prep_enums(m) + _prep_match(m) + _prep_records(m)
+                set_parents(m.tree)
+                n += _prep_booltests(m)
+                ast.fix_missing_locations(m.tree)
+                set_parents(m.tree)
+                if not n:
+                    break
+    except AnalysisError:
+        raise
+    except Exception as e:  # noqa: BLE001 - the passes only remove reasons for false alarms: if they cannot cope, the modules are analysed as loaded
+        ctx.note(f"private normalisation skipped: {type(e).__name__}: {e}")
+        return
+    priv._c14_private = True  # type: ignore[attr-defined]
+    ctx.repo = priv
+
+
 def run(ctx: Ctx) -> None:
+    _private_view(ctx)
     rule_bucket(ctx)
     rule_split(ctx)
     rule_closest(ctx)
     rule_refresh_id(ctx)
+    rule_own_id_fixed(ctx)
+    rule_refresh_caller(ctx)
     rule_trie(ctx)
     finish_undecided(ctx)
     ctx.assume("induction argument: (1) every insert satisfies owns and capacity, (2) split replaces a leaf by its two children whose prefixes partition the parent's, "
@@ -3416,4 +5316,37 @@ WITNESSES = [
      "old": "n.status))[:max_nodes]", "new": "n.status))"},
     {"name": "distance is subtraction", "file": RT, "rule": "closest",
      "old": "return int(binascii.hexlify(a), 16) ^ int(binascii.hexlify(b), 16)", "new": "return abs(int(binascii.hexlify(a), 16) - int(binascii.hexlify(b), 16))"},
+    {"name": "distance over the leading 8 bytes of the ids only", "file": RT, "rule": "closest",
+     "old": "return int(binascii.hexlify(a), 16) ^ int(binascii.hexlify(b), 16)", "new": "return int(binascii.hexlify(a[:8]), 16) ^ int(binascii.hexlify(b[:8]), 16)"},
+    {"name": "own identifier of a routing table rewritten after construction", "file": "ipv8/dht/community.py", "rule": "split-own-path",
+     "old": "            self.routing_tables[address_cls] = RoutingTable(self.get_my_node_id(node))\n",
+     "new": "            self.routing_tables[address_cls] = RoutingTable(self.get_my_node_id(node))\n"
+            "        self.routing_tables[address_cls].my_node_id = self.get_my_node_id(node)\n"},
+    {"name": "refresh id generated from a left-over loop variable", "file": "ipv8/dht/community.py", "rule": "refresh-id-in-bucket",
+     "old": "await self.find_values(buckets[0].generate_id())", "new": "await self.find_values(bucket.generate_id())"},
+    {"name": "capacity test spelled operator.le", "rule": "bucket-insert", "edits": [
+        {"file": RT, "old": "from collections import deque\n", "new": "from collections import deque\nimport operator\n"},
+        {"file": RT, "old": "        if len(self.nodes) < self.max_size:\n            self.nodes[node.id] = node",
+         "new": "        if operator.le(len(self.nodes), self.max_size):\n            self.nodes[node.id] = node"}]},
+    {"name": "Enum decision that lets a foreign node in", "rule": "bucket-insert", "edits": [
+        {"file": RT, "old": "from collections import deque\n", "new": "from collections import deque\nfrom enum import Enum\n"},
+        {"file": RT, "old": "class Bucket:\n", "new": "class _Rel(Enum):\n    FOREIGN = 0\n    OWN = 1\n\n\nclass Bucket:\n"},
+        {"file": RT, "old": "        if not self.owns(node.id):\n            return False\n\n        # Update existing node",
+         "new": "        rel = _Rel.OWN if self.owns(node.id) or node.rtt else _Rel.FOREIGN\n        if rel is _Rel.FOREIGN:\n            return False\n\n        # Update existing node"}]},
+    {"name": "result object whose ownership field is constant", "rule": "bucket-insert", "edits": [
+        {"file": RT, "old": "from typing import TYPE_CHECKING, cast\n", "new": "from typing import TYPE_CHECKING, NamedTuple, cast\n"},
+        {"file": RT, "old": "class Bucket:\n", "new": "class _Seen(NamedTuple):\n    owned: bool\n    known: bool\n\n\nclass Bucket:\n"},
+        {"file": RT, "old": "        if not self.owns(node.id):\n            return False\n\n        # Update existing node",
+         "new": "        seen = _Seen(True, node.id in self.nodes)\n        if not seen.owned:\n            return False\n\n        # Update existing node"}]},
+    {"name": "dispatch table whose insert handler has no capacity test", "rule": "bucket-insert", "edits": [
+        {"file": RT, "old": "        # Insert\n        if len(self.nodes) < self.max_size:\n            self.nodes[node.id] = node\n            node.bucket = self\n            self.last_changed = time.time()\n            return True\n\n        return False\n",
+         "new": "        place = self._place if len(self.nodes) < self.max_size else self._place_anyway\n        return place(node)\n\n"
+                "    def _place(self, node: Node) -> bool:\n        self.nodes[node.id] = node\n        node.bucket = self\n        self.last_changed = time.time()\n        return True\n\n"
+                "    def _place_anyway(self, node: Node) -> bool:\n        self.nodes[node.id] = node\n        return True\n"}]},
+    {"name": "callable-class filter that admits BAD nodes", "rule": "closest", "edits": [
+        {"file": RT, "old": "class RoutingTable:\n",
+         "new": "class _Usable:\n    def __init__(self, skip: Node | None) -> None:\n        self.skip = skip\n\n"
+                "    def __call__(self, node: Node) -> bool:\n        return self.skip is None or node.id != self.skip.id\n\n\nclass RoutingTable:\n"},
+        {"file": RT, "old": "                    nodes |= {node for node in list(bucket.nodes.values())\n                              if node.status != NODE_STATUS_BAD and (exclude_node is None\n                                                                     or node.id != exclude_node.id)}\n",
+         "new": "                    nodes.update(filter(_Usable(exclude_node), list(bucket.nodes.values())))\n"}]},
 ]
